@@ -12,1251 +12,2692 @@ Definition show_fres (r : fres) : string :=
   end.
 Definition check (rs : list rune) : string := digest (show_fres (format_res rs)).
 Definition full (rs : list rune) : string := show_fres (format_res rs).
-Eval vm_compute in ("<<<M1557>>>" ++ check (runes_of_ascii "  packet
-
-    body{  Z9_ { string
-
-leftPad 
-`crlf
-line`,  msg_type {// c
-  uint64 
-tag
-`{ , }` ,
-repeat
-	f64
-    BodyLength ,
-
-    },  i8i8
-
-BodyLength 
-,
-} 
-	// " ++ [128512]%N ++ runes_of_ascii " emoji
-  ,
-falsey  //
-,@leftPad
-    ( 	 // c
-
-  '0'
-
-    ) 
-@lengthOf( falsey	)f32
-	Z9_	@lengthOf(
-
-o
-
-    ) ,
-@calculatedFrom( """ ++ [233]%N ++ runes_of_ascii "t" ++ [233]%N ++ runes_of_ascii """)
-repeat	string //x
-As
-,@lengthOf(
-	falsey )
-
-@calculatedFrom(
-""a	b"")
-@tag(3 )repeat	Header
-    {
-
-Packet
-	@lengthOf(
-    crc 
-)	,
-    repeat
-
-int16	As  ,
-
-repeat  uint16// packet A { u8 x, }
-		f32a , }
-,
-	@lengthOf(
-    float
-	)
-
-@tag(
-
-3
-
-)
-    // a // b
-	@tag( 	 // " ++ [128512]%N ++ runes_of_ascii " emoji
-  10
-) roots
-
-    BodyLength  , 
-string
-tag	//	t
-	,
-	} MetaData  int
-
-{ 
-char[ 1	]
-    As
-,
-Packet u128 ,  // c
-      pack
-	x_y_z
-
-`{ , }`
-, string_ len ,
-
-    zchar[0]
-Header
-,	string zchar
-
-    `
-`	, }root packet
-	uint8x
-    {
-    char[]
-
-u128  ,
-	}root
-
-    packet crc
-
-{	repeat
-trueish{
-f32
-lengthOf
-	`say ""hi""` 
-,
-i8 crc @calculatedFrom(
-
-    """ ++ [233]%N ++ runes_of_ascii "t" ++ [233]%N ++ runes_of_ascii """)
-
-    ,
-match
-
-Z9_
-	as
-repeatCount	{ 
-[
-
-3	]
-: string_
-
-,""it's""
-
-:
-
-    A
-    0 :
-    u8x
-    65535 :
-
-u128}, // trailing space 
-	i32
-    x, } , char[] pack`// not a comment` ,
-
-char[]
-
-leftPad
-
-@calculatedFrom(
-
-    """" ) 
-`
-`
-,
-
-    string
-	o `doc`	,}
-
-packet 	 // " ++ [27880; 37322]%N ++ runes_of_ascii "
-  	rootA
-    {  // " ++ [128512]%N ++ runes_of_ascii " emoji
-repeat
-	x_y_z { zchar[ 
-    //	t
-  //	t
-
-	3 ]
-	stringy `crlf
-line`
-
-    ,
-    BodyLength 
-BodyLength ``  , 
-lengthOf @calculatedFrom(	""x y""
-	), // c
-
-	float64  
-      // " ++ [27880; 37322]%N ++ runes_of_ascii "
-      Logon@calculatedFrom(
-""a\\""  ) 
-, }, @lengthOf( Pad
-)// `tick` ""quote"" 'q'
-    @calculatedFrom( ""abc"")
-
-@tag(  4294967296
-)
-uint8x
-	@lengthOf(  // packet A { u8 x, }
-
-crc )
-	, @calculatedFrom(	//	t
-	""" ++ [233]%N ++ runes_of_ascii "t" ++ [233]%N ++ runes_of_ascii """ ) string
-u	@lengthOf(
-    uint8x )
-
-`// not a comment` , 
-u
-	metadata
-`u8 x,`, 
-} ")).
-Eval vm_compute in ("<<<M1622>>>" ++ check (runes_of_ascii "
-
-  options
-
-{
-u	=	""a\""b""
-//	t
-		//
-	;Z9_ 
-= ""// no comment"" ;	tag
-    // " ++ [27880; 37322]%N ++ runes_of_ascii "
-=7}
-
-    root 
-packet 
-    // trailing space 
-
-	As {
-	}
-packet 
-Header
-
-    { @lengthOf( 
-Foo)
-
-rootA @calculatedFrom(""\" ++ [233]%N ++ runes_of_ascii """
-
-    ) , @calculatedFrom(""CRC32""	// a // b
-) 
-float64
-	crc,
-    repeat
-char[	// packet A { u8 x, }
-      007	]
-
-    Logon
-	, 	 //
-@tag(
-7 ) 
-
-    //
-
-  // c
-
-@calculatedFrom(	""{,}"" )	@lengthOf(stringy
-	)match//	t
-    A
-as 
-    // " ++ [128512]%N ++ runes_of_ascii " emoji
-
-// `tick` ""quote"" 'q'
-  f32a 
-{ 
-    // `tick` ""quote"" 'q'
-
-  [
-	""a\\"" ,  1 , ""CRC32"",
-
-    007
-,	""a	b""	,	""\" ++ [233]%N ++ runes_of_ascii """]  :trueish,
-    4294967296
-	:  
-  // c
-	//x
-    u8x ,  //
+Eval vm_compute in ("<<<M3588>>>" ++ check (runes_of_ascii "options {
+    LittleEndian = true;
+    StringPrefixLenType = u8;
+    ArrayPrefixLenType = u16;
+    FixedStringPadChar = '0';
+    JavaPackage = ""com.example.msg"";
+    GoPackage = ""msg"";
+    GoModule = ""example.com/msg"";
 }
-	,
-@tag(
-
-255
-
-    )@lengthOf( u8x
-	)
-    @calculatedFrom(	""x y""
-	)
-	pack
-{ uint16 uint8x, },match
-
-    leftPad	as asx {  ""{,}""
-    :
-T
-	007 
-  //	t
-    :  // @lengthOf(
-	_x
-1  : options1  , 
-[
-    42 
-, 007	]  // a // b
-  	:  calculatedFrom	, """ ++ [233]%N ++ runes_of_ascii "t" ++ [233]%N ++ runes_of_ascii """
-
-:
-lengthOf
-
-}, 
-u8x {
-
-    int64  charz	`line1
-line2` 
-, } 
-, repeat 
-	    //x
-Header 
-BodyLength
-`
-`
-	, 
-@rightPad
-(  // `tick` ""quote"" 'q'
-'\x00'  )
-@lengthOf(tag  )  match
-
-    o	// trailing space 
-as
-
-uint8x{	[
-	255 ]: _x
-
-    ,	1
-: matchKey , 
-    // " ++ [128512]%N ++ runes_of_ascii " emoji
-		//x
-		65535
-	: 
-  // c
-    // @lengthOf(
-
-tag ,
-0123456789	:	zchar ,""a\\"" :
-	metadata ,
-
-} 
-, }")).
-Eval vm_compute in ("<<<M210>>>" ++ check (runes_of_ascii "packet chars
-    {
-int32 trueish ,match Pad
-as repeatCount { [0] :// " ++ [27880; 37322]%N ++ runes_of_ascii "
-Pad
-    , /// triple
-3
-: Foo , ""abc""
-    :
-i64_ //	t
-, [255
-    ,	3 ]
-    :
-Packet ,[
-0123456789 // @lengthOf(
-,""// no comment"" ]
-: Packet , }
-    , // c
-match  a1 as u {[// `tick` ""quote"" 'q'
-""abc""
-, """ ++ [233]%N ++ runes_of_ascii "t" ++ [233]%N ++ runes_of_ascii """
-, """" ,  0
-    ,
-    //	t
-    255 ]
-:u
-    //	t
-    ,
-    } ,@tag(  10
-    ) match a1
-    as a1
-{
-    [42
-    ]//
-:packetx ,
-    } ,@lengthOf(As ) repeat	char[0123456789] repeatCount`tab	here` ,string o `crlf
-line` ,
-//x
-// a // b
-As
-    @lengthOf(//x
-i8i8 )
-    , string repeatCount @lengthOf( u128 ) ,
-    //
-    @tag( 00 ) repeat pack Logon , }	root packet Foo {@tag( 1)char[ // packet A { u8 x, }
-3
-]
-i64_ ,
-f32
-// packet A { u8 x, }
-// " ++ [27880; 37322]%N ++ runes_of_ascii "
-charz , // `tick` ""quote"" 'q'
-i8 zchar
-    @lengthOf(// `tick` ""quote"" 'q'
-MetaDataX ) /// triple
-,@tag( 007 )u8 _x ,@tag(  255 ) msg_type@calculatedFrom(""`tick`"") `doc` ,  @calculatedFrom( """ ++ [233]%N ++ runes_of_ascii "t" ++ [233]%N ++ runes_of_ascii """ ) match len as /// triple
-As {""// no comment"" : falsey ,
-    }  , } MetaData leftPad{ x i8i8 , } //")).
-Eval vm_compute in ("<<<M301>>>" ++ check (runes_of_ascii "root  packet
-    MetaDataX { } options
-    {
-matchKey
-= ""abc""
-;i64_ =// a // b
-7 ; len  = 1 x_y_z =//x
-'0' ; } options { A
-    = 7 len
-// a // b
-//x
-=	zchar[4294967296 ]	;o
-    = string ;
-    int = false f32a = // trailing space 
-""CRC32"" ;} root
-    packet crc
-    // " ++ [27880; 37322]%N ++ runes_of_ascii "
-    { char[]
-string_
-    ,match i8i8 // c
-as tag { //x
-3 :packetx } ,  @rightPad(' '	)  repeat _x
-// packet A { u8 x, }
-//x
-{ a1
-trueish `// not a comment` , }	, int16// packet A { u8 x, }
-Z9_ ,@lengthOf( uint8x
-    // @lengthOf(
-    )
-// `tick` ""quote"" 'q'
-// `tick` ""quote"" 'q'
-zchar[
-    // " ++ [128512]%N ++ runes_of_ascii " emoji
-    4294967296  ]A
-@lengthOf( i64_  ) //	t
-`two words` ,repeat // " ++ [27880; 37322]%N ++ runes_of_ascii "
-uint64 metadata
-,
-@calculatedFrom(
-""packet"" ) string
-//x
-//	t
-x
-`it's`
-, match	T
-as asx
-// " ++ [27880; 37322]%N ++ runes_of_ascii "
-//	t
-{ ""abc"" : A , ""it's""
-:
-    Logon, }  ,// packet A { u8 x, }
-@calculatedFrom(
-//
-// a // b
-""\n"" ) string _x , uint64 zchar @lengthOf(
-lengthOf
-) , } packet
-uint8x { } // a // b")).
-Eval vm_compute in ("<<<M1446>>>" ++ check (runes_of_ascii "options {
-    LittleEndian = false;
-    StringPrefixLenType = u16;
-    ArrayPrefixLenType = u64;
-    FixedStringPadFromLeft = true;
-    FixedStringPadChar = ' ';
+MetaData Meta {
+    u32 SeqNum `sequence number
+more`,
+    char[8] Symbol `symbol
+more`,
+    zchar[5] ZSym `z symbol
+more`,
+    string Note,
+    Symbol AltSymbol `alias of symbol`,
+    f64 Price,
+}
+packet Inner {
+    u8 a,
+    i16 b,
+    string c,
+}
+packet Inner2 {
+    u8 a2,
+    char[3] c2,
 }
 packet Logon {
-    u16 Tail,
-    repeat string x,
-    i16 count,
-    @leftPad('0') char[3] Note,
+    u8 x,
+    string user,
+    repeat u16 codes,
 }
-packet Fill {
-}
-packet Heartbeat {
-}
-packet Reject {
-    string msgKind,
-    repeat Logon,
-    InFlags25 {
-        repeat InPrice29 {
-            u8 price,
-            Logon,
-            repeat char[1] Note,
-        },
-        char[] x,
-        Fill,
-    },
-    repeat Heartbeat,
-}
-root packet Order {
-    InNote88 {
-        repeat i32 Acct,
-        repeat i16 clOrdID,
-        repeat Logon,
-    },
-    u16 tag7,
-    match tag7 as Body {
-        [14, 22] : Logon,
-        55 : Heartbeat,
-        93 : Reject,
-        13 : Fill,
-    },
-}
-")).
-Eval vm_compute in ("<<<M1488>>>" ++ check (runes_of_ascii "options {
-    StringPrefixLenType = u16;
-    ArrayPrefixLenType = u32;
-    FixedStringPadFromLeft = false;
-    FixedStringPadChar = '0';
-}
-
 packet Logout {
-    f64 f1,
-    i16 Note,
-    @rightPad('\x00')
-    char[11] Flags,
+    u16 reason,
 }
-
-packet Cancel {
-    float64 msgKind,
+packet Empty {
 }
-
-packet Reject {
-    InQty43 {
-        float32 sym,
-        char[10] Tail,
-        uint8 venue,
-        uint16 f1,
-        char[9] Acct,
+root packet Msg {
+    u8 su8,
+    uint8 luint8,
+    u16 su16,
+    uint16 luint16,
+    u32 su32,
+    uint32 luint32,
+    u64 su64,
+    uint64 luint64,
+    i8 si8,
+    int8 lint8,
+    i16 si16,
+    int16 lint16,
+    i32 si32,
+    int32 lint32,
+    i64 si64,
+    int64 lint64,
+    f32 sf32,
+    float32 lfloat32,
+    f64 sf64,
+    float64 lfloat64,
+    char[6] fsplain,
+    @leftPad('0') char[4] fs0,
+    @rightPad('0') char[5] fs1,
+    @leftPad(' ') char[6] fs2,
+    @rightPad(' ') char[7] fs3,
+    @leftPad('\x00') char[8] fs4,
+    @rightPad('\x00') char[9] fs5,
+    @leftPad() char[10] fs6,
+    @rightPad() char[11] fs7,
+    zchar[7] fz,
+    @leftPad('0') zchar[3] fzl0,
+    string s1 `doc`,
+    char[] s2,
+    Inner,
+    Sub {
+        u8 q,
+        string w,
+        Deep {
+            u16 z,
+            repeat i32 zs,
+        },
     },
-}
-
-packet Trade {
-    char[] x,
-    zchar[6] Note,
-    repeat Reject,
-}
-
-root packet Order {
-    Cancel,
-    Logout,
-    u64 Acct,
-    u32 OrderId,
-    match OrderId as Body {
-        [127, 70] : Reject,
-        177 : Trade,
-        58 : Logout,
-        75 : Cancel,
+    repeat u8 ru8,
+    repeat u16 ru16,
+    repeat u32 ru32,
+    repeat u64 ru64,
+    repeat i8 ri8,
+    repeat i16 ri16,
+    repeat i32 ri32,
+    repeat i64 ri64,
+    repeat f32 rf32,
+    repeat f64 rf64,
+    repeat string rstr,
+    repeat char[] rstr2,
+    repeat char[3] rfs,
+    repeat zchar[3] rfz,
+    repeat Inner2,
+    repeat Grp {
+        u8 k,
+        char[2] v,
     },
-    u32 Tail @calculatedFrom(""CR\
-        C32""),
-}")).
-Eval vm_compute in ("<<<M31>>>" ++ check (runes_of_ascii "packet options1
-    {@leftPad
-( )
-    @calculatedFrom( ""\n"" )
-    @leftPad (
-' ' // " ++ [27880; 37322]%N ++ runes_of_ascii "
-)
-chars
-T `say ""hi""` // " ++ [27880; 37322]%N ++ runes_of_ascii "
-,
-    // @lengthOf(
-    repeat zchar
-{  metadata {
-// @lengthOf(
-// c
-match A as x_y_z {""1"" :
-// " ++ [128512]%N ++ runes_of_ascii " emoji
-// c
-string_// @lengthOf(
-[""// no comment""  ,
-10 ] : Foo""a\\"": Packet [""a	b"",
-    65535 ]
-    :	x
-,
-}
-,
-} , } // " ++ [128512]%N ++ runes_of_ascii " emoji
-,
-@rightPad (
-) f32
-msg_type
-    , match f32a as body { [
-    ""`tick`"" , ""\n"" ,
-    ""a	b"" ,
-""{,}"" , 255 ,""x y"", 3
-]:// @lengthOf(
-x ,
-    ""CRC32""
-: zchar	, ""x y"" :
-rootA // `tick` ""quote"" 'q'
-[ 00
-    ,
-    ""it's""	, 4294967296 ,""CRC32"" ]:
-roots 4294967296 : Logon}, @leftPad
-('0')pack `crlf
-line`
-, }")).
-Eval vm_compute in ("<<<M20>>>" ++ check (runes_of_ascii "// " ++ [128512]%N ++ runes_of_ascii " emoji
-MetaData o
-    { } packet uint8x { uint8
-    // c
-    u128  @lengthOf(
-body  )  `// not a comment` , @calculatedFrom( ""1"" ) options1{
-    repeat Foo crc , zchar[ 255] MetaDataX
-    /// triple
-    @calculatedFrom( ""\" ++ [233]%N ++ runes_of_ascii """ ) , Foo { char[ 1 ] msg_type ,
-    } ,
+    SeqNum,
+    SeqNum seq2,
+    repeat SeqNum seqs,
+    Symbol,
+    AltSymbol alt,
+    ZSym,
+    Note,
+    repeat Symbol syms,
+    Price px,
+    u16 MsgType,
+    u32 BodyLen @lengthOf(Body),
+    match MsgType as Body {
+        1 : Logon,
+        [2, 3] : Logout,
+        7 : Logon,
+        9 : Empty,
     },
-float64
-    falsey @lengthOf(
-f32a )
-,
-    match
-// packet A { u8 x, }
+    u32 Checksum @calculatedFrom(""CRC32""),
+}
+")).
+Eval vm_compute in ("<<<M617>>>" ++ check (runes_of_ascii "packet
 //
-BodyLength
-    as f32a
-{ """ ++ [128512]%N ++ runes_of_ascii """
-: x_y_z ,	""" ++ [128512]%N ++ runes_of_ascii """ :
-    BodyLength ,""" ++ [28040; 24687]%N ++ runes_of_ascii """ : Foo
-,
-    } , @lengthOf( lengthOf ) repeat len , // " ++ [128512]%N ++ runes_of_ascii " emoji
-crc float`line1
-line2`
-    , }MetaData repeatCount {
-tag x, //	t
-}
-")).
-Eval vm_compute in ("<<<M216>>>" ++ check (runes_of_ascii "packet repeatCount
-{ f64 // @lengthOf(
-_x
-@lengthOf( zchar
-) ,
-Z9_ , calculatedFrom @lengthOf(rootA
+// " ++ [128512]%N ++ runes_of_ascii " emoji
+Z9_ {string	options1@calculatedFrom( ""// no comment"" ) `{ , }`
+, @lengthOf( MetaDataX )  @tag( 1
 )
-    `{ , }` ,} packet a1{
     /// triple
-    chars
-@lengthOf(
-tag ), metadata
-    , }packet
-Packet
-    { //x
-@tag( 65535 )  @leftPad ( )@tag( 42)	char[ 0123456789]
-    /// triple
-    float @calculatedFrom(""CRC32"" )
-    `tab	here` , repeat int8 string_, u8
-x_y_z
-`crlf
-line`, // @lengthOf(
-@tag( 0123456789
-)zchar[
-1
-]	lengthOf @calculatedFrom( ""it's"" ) , // " ++ [27880; 37322]%N ++ runes_of_ascii "
-}
-")).
-Eval vm_compute in ("<<<M100>>>" ++ check (runes_of_ascii "packet roots {
-    } packet metadata {
-    @lengthOf( u) @tag(00 )
-@lengthOf( Pad )  T @lengthOf( pack ),@rightPad
-( '0' )lengthOf , @lengthOf(  u) char[]
+    @calculatedFrom( ""it's""	) repeat packetx
+/// triple
+// @lengthOf(
+,uint8x // " ++ [128512]%N ++ runes_of_ascii " emoji
+@lengthOf( i8i8// a // b
+) `say ""hi""` , // " ++ [27880; 37322]%N ++ runes_of_ascii "
+@leftPad (
+' ')char[
     //
-    A ,
-match  Packet as // `tick` ""quote"" 'q'
-a1{007
-: leftPad 65535
-    :// trailing space 
-msg_type , ""a\\"" :
-// " ++ [128512]%N ++ runes_of_ascii " emoji
-// @lengthOf(
-Z9_ """ ++ [233]%N ++ runes_of_ascii "t" ++ [233]%N ++ runes_of_ascii """
-: A , ""// no comment""	:x_y_z,
-4294967296 : a1
-    ,/// triple
-} ,f32	T
-    , f64 roots	@lengthOf( int ), }")).
-Eval vm_compute in ("<<<M1644>>>" ++ check (runes_of_ascii "
-// top
-packet 
-    // c0
-  Logon
-// c1
-	{ 
-	// c2
-@tag(
-    // c3
-	42
-// c4
-	  ) 
-
-// c5
-@rightPad 
-// c6
-
-( 
-      // c7
-	' ' 
-	    // c8
-  )
-
-    // c9
-    	@leftPad 
-  // c10
-	(
-// c11
-)  
-  // c12
-  repeat
-    // c13
-  trueish
-	    // c14
-  {
-    // c15
-    	string
-	// c16
-    T
-// c17
-    	, 
-	// c18
-} 
-// c19
-
-	, 
-      // c20
-  }
-	    // c21
-")).
-Eval vm_compute in ("<<<M1126>>>" ++ check (runes_of_ascii "// top
-packet
-    // c0
-Logon
-    // c1
-{
-    // c2
-@tag(
-    // c3
-42
-    // c4
-)
-    // c5
-@rightPad
-    // c6
-(
-    // c7
-' '
-    // c8
-)
-    // c9
-@leftPad
-    // c10
-(
-    // c11
-)
-    // c12
-repeat
-    // c13
-trueish
-    // c14
-{
-    // c15
-string
-    // c16
-T
-    // c17
-,
-    // c18
-}
-    // c19
-,
-    // c20
-}
-    // c21
-")).
-Eval vm_compute in ("<<<M306>>>" ++ check (runes_of_ascii "
-packet charz
-    { @lengthOf( Pad
-) match rootA as	string_ { [ 0123456789 ]
-// a // b
-//
-: repeatCount [
-    00 ,""it's""
-] : T ,
-    0 // packet A { u8 x, }
-: stringy,
-    4294967296 :
-msg_type ,/// triple
-} ,} packet lengthOf
-{
-@tag( 7 ) char[
-    255 ]
-float@calculatedFrom( ""packet"" ),  }
-")).
-Eval vm_compute in ("<<<M1409>>>" ++ check (runes_of_ascii "packet P1 {
-    u8 a,
-}
-packet P2 {
-    P1,
-}
-packet P3 {
-    P2,
-    P1,
-}
-packet P4 {
-    repeat P3,
-    P2,
-}
-root packet P5 {
-    P4,
-    P3,
-    P1,
-    u8 K,
-    match K as Body {
-        4 : P4,
-        3 : P3,
-        2 : P2,
-        1 : P1,
-    },
-}
-")).
-Eval vm_compute in ("<<<M1684>>>" ++ check (runes_of_ascii "
-options{
-
-    FixedStringPadChar
-	=
-'0';	}
-packet
-
-Q { 
-zchar[	4 ]
-z
-,@rightPad
-(
-
-'\x00'
-
-)
-char[3 ]	n
-
-    ,
-	char[
-
-5
-]
-d  , }
-
-    root
-packet
-    R
-
-    {Q
-
-,
-    zchar[8
-] top ,repeat  zchar[
-    2  ]  zs
-
-    ,} ")).
-Eval vm_compute in ("<<<M572>>>" ++ check (runes_of_ascii "options
-{
-matchKey = 42/// triple
-x='0' ;
-// packet A { u8 x, }
-//
-charz
-=
-// packet A { u8 x, }
+    7 ] MetaDataX
+    // " ++ [27880; 37322]%N ++ runes_of_ascii "
+    , @tag( 65535 ) // @lengthOf(
+trueish {	i8i8//
+repeatCount,  },match body as i8i8{ 255
+    : f32a ""a\""b"" :int[""CRC32""
+// c
 // trailing space 
-'\x01'true  ; } MetaData BodyLength
-{
-uint8
-pack,zchar[ 1]float ,  float32 x_y_z `` ,u32
-_x,i16 body  , }
-")).
-Eval vm_compute in ("<<<M427>>>" ++ check (runes_of_ascii "options
-{
-matchKey = 42/// triple
-x='0' ; ;
-// packet A { u8 x, }
-//
-charz
-=
-// packet A { u8 x, }
-// trailing space 
-true  ; } MetaData BodyLength
-{
-uint8
-pack,zchar[ 1]float ,  float32 x_y_z `` ,u32
-_x,i16 body  , }
-")).
-Eval vm_compute in ("<<<M571>>>" ++ check (runes_of_ascii "opti~ons
-{
-matchKey = 42/// triple
-x='0' ;
-// packet A { u8 x, }
-//
-charz
-=
-// packet A { u8 x, }
-// trailing space 
-true  ; } MetaData BodyLength
-{
-uint8
-pack,zchar[ 1]float ,  float32 x_y_z `` ,u32
-_x,i16 body  , }
-")).
-Eval vm_compute in ("<<<M508>>>" ++ check (runes_of_ascii "options
-{
-matchKey = 42/// triple
-x='0' ;
-// packet A { u8 x, }
-//
-charz
-=
-// packet A { u8 x, }
-// trailing space 
-true  ; } MetaData BodyLength
-{
-uint8
-pack,zchar[ 1]float float32  , x_y_z `` ,u32
-_x,i16 body  , }
-")).
-Eval vm_compute in ("<<<M586>>>" ++ check (runes_of_ascii "options
-{
-matchKey = 42/// triple
-x='0' ;
-// packet A { u8 x, }
-//
-charz
-=
-// packet A { u8 x, }
-// trailing space 
-true  ; } MetaData BodyLength
-{
-uint8
-pack,zchar[ 1]a" ++ [769]%N ++ runes_of_ascii "b ,  float32 x_y_z `` ,u32
-_x,i16 body  , }
-")).
-Eval vm_compute in ("<<<M396>>>" ++ check (runes_of_ascii "options
-{
- = 42/// triple
-x='0' ;
-// packet A { u8 x, }
-//
-charz
-=
-// packet A { u8 x, }
-// trailing space 
-true  ; } MetaData BodyLength
-{
-uint8
-pack,zchar[ 1]float ,  float32 x_y_z `` ,u32
-_x,i16 body  , }
-")).
-Eval vm_compute in ("<<<M174>>>" ++ check (runes_of_ascii "packet  f32a
-    {//
-match
+]  : metadata// @lengthOf(
+, } ,@lengthOf( pack ) repeat body  { Foo { repeat zchar[ 65535]
 //x
 //
-o
-    // trailing space 
-    as As { 10: //
-roots
-,// " ++ [27880; 37322]%N ++ runes_of_ascii "
-[
-255 // a // b
-, 42 ,
-    10 ,  00 ]:
-    matchKey ,
-} ,
+string_ , zchar len // " ++ [128512]%N ++ runes_of_ascii " emoji
+`100% of %d` , }
+    ,
+string Z9_ , match Packet
+    as trueish
+{
+""" ++ [233]%N ++ runes_of_ascii "t" ++ [233]%N ++ runes_of_ascii """
+:
+pack , 4294967296 ://x
+asx ,
 }
-    options { u128 = 65535 Packet = 3
-;
-}")).
-Eval vm_compute in ("<<<M664>>>" ++ check (runes_of_ascii "// c
-packet i64_ {	char[] calculatedFrom , } packet
-trueish  {@calculatedFrom(
-""a\\"" ) o { i32 falsey@lengthOf( uint8x ),
-} , } // `tick` ""quo'1'te"" 'q'
-options {// c
-Z9_ = ' '//
+, },
+@calculatedFrom( ""\n"" )
+//
+// " ++ [27880; 37322]%N ++ runes_of_ascii "
+@tag( 0  ) repeat Header
+// `tick` ""quote"" 'q'
+// trailing space 
+{ Pad
+    { pack{ repeat u16  tag , match calculatedFrom as trueish {""abc""
+// c
+// " ++ [128512]%N ++ runes_of_ascii " emoji
+: metadata [ ""it's"" ,
+255 ] :matchKey , 4294967296
+// packet A { u8 x, }
+// `tick` ""quote"" 'q'
+:x_y_z
+, [ ""`tick`"" ]: // @lengthOf(
+asx , } , }
+,//	t
+char[ 255] pack , // " ++ [128512]%N ++ runes_of_ascii " emoji
+uint32 BodyLength
+    , } ,float ,
+} , @calculatedFrom(
+    ""a\\"" )
+    //	t
+    @tag(
+10 ) // a // b
+match	falsey as
+// packet A { u8 x, }
+// trailing space 
+pack {
+// a // b
+/// triple
+7  :
+    x_y_z  ,[ ""a	b"" ,  ""packet"" ] :x_y_z, },	lengthOf{ int8
+    uint8x ,}	, }// " ++ [27880; 37322]%N ++ runes_of_ascii "
+packet A
+{ }
+packet
+    // `tick` ""quote"" 'q'
+    A
+{
+    // 50% %s
+    @leftPad  ( ' '
+    )  @calculatedFrom( // `tick` ""quote"" 'q'
+""" ++ [233]%N ++ runes_of_ascii "t" ++ [233]%N ++ runes_of_ascii """ )MetaDataX @lengthOf( calculatedFrom//x
+) // `tick` ""quote"" 'q'
+`crlf
+line`
+, //	t
 }
+    packet	x_y_z {@rightPad // trailing space 
+(' ' ) @lengthOf(leftPad)
+@lengthOf( Header )
+char[ //
+0123456789	]	metadata
+, }packet
+options1 { }
 ")).
-Eval vm_compute in ("<<<M3>>>" ++ check (runes_of_ascii "packet
-    Foo{
-    uint64  Header @lengthOf( float )
-`
-`
-, // a // b
-char[]_x,@tag( 10
-    )
-char[] Packet , uint16 stringy @lengthOf(
-    calculatedFrom
-), }//x
-options	{ }")).
-Eval vm_compute in ("<<<M1796>>>" ++ check (runes_of_ascii "packet A {
-    match k as n {
+Eval vm_compute in ("<<<M3713>>>" ++ check (runes_of_ascii "// " ++ [27880; 37322]%N ++ runes_of_ascii "
+packet rootA {
+    u128 @lengthOf(Packet),
+    _x @lengthOf(f32a) `" ++ [28040; 24687; 31867; 22411]%N ++ runes_of_ascii "`,
+    calculatedFrom,
+    @rightPad('0')
+    // " ++ [27880; 37322]%N ++ runes_of_ascii "
+    float {
+        matchKey matchKey,
+        f32 Header @calculatedFrom(""// no comment"") `doc`,
+        uint8x metadata,
+    },
+    repeat string_ `" ++ [233]%N ++ runes_of_ascii "`,
+    u32 charz,
+}
+
+packet i64_ {
+    Z9_ asx,
+    f32a `// not a comment`,
+    char[] Packet @calculatedFrom(""\" ++ [233]%N ++ runes_of_ascii """) `100% of %d`,
+    char[007] u128 @calculatedFrom(""""),
+    crc `a\`,
+    @calculatedFrom(""{,}"")
+    //
+    @calculatedFrom(""it's"")
+    float64 chars,
+    zchar @lengthOf(roots) ``,
+    u8 lengthOf @lengthOf(x_y_z),
+    @tag(65535)
+    @tag(1)
+    @calculatedFrom(""abc"")
+    repeat uint8 u `// not a comment`,
+}
+
+options {
+    i64_ = '0'
+    zchar = """ ++ [233]%N ++ runes_of_ascii "t" ++ [233]%N ++ runes_of_ascii """;
+    lengthOf = ""\" ++ [233]%N ++ runes_of_ascii """// 50% %s
+    body = ' ';// trailing space 
+    i8i8 = string;
+}
+
+//x
+packet lengthOf {
+    @calculatedFrom(""`tick`"")
+    @lengthOf(float)
+    // packet A { u8 x, }
+    repeat o,
+    i32 A `a\`,
+    i8i8 @calculatedFrom(""CRC32"") `it's`,
+    @leftPad(' ')
+    @tag(10)
+    // 50% %s
+    char[] o @lengthOf(MetaDataX) ``,
+    uint64 Z9_ @calculatedFrom(""// no comment"") `// not a comment`,
+    @rightPad()
+    f32a {
+        char[] stringy,
+    },
+    @leftPad()
+    zchar[10] trueish,
+    char calculatedFrom `it's`,
+}
+
+MetaData i64_ {
+    // @lengthOf(
+    i8 roots,
+    lengthOf pack,// trailing space 
+    string Foo `100% of %d`,
+    f32 u8x `two words`,
+    char[] chars,
+    zchar[10] u,
+    //x
+    // `tick` ""quote"" 'q'
+}")).
+Eval vm_compute in ("<<<M3656>>>" ++ check (runes_of_ascii "  packet  
+  // trailing space 
+  	// @lengthOf(
+    	asx
+{ 	 // 50% %s
+	body
+repeatCount
+
+,
+
+    @tag(  1	)
+    repeat
+	_x
+
+BodyLength, } options	{ 
+len
+=	false	// packet A { u8 x, }
+	;}
+	packet msg_type
+	{	// @lengthOf(
+repeat string_  x 
+,
+
+    @tag( 
+007 )
+@calculatedFrom(""it's""
+	)
+	@lengthOf(
+u8x  )uint32	BodyLength
+,  @calculatedFrom( ""a\""b""
+
+)  match
+	a1 	 // " ++ [27880; 37322]%N ++ runes_of_ascii "
+	as
+matchKey 
+{
+00
+	:
+
+    options1
+,  4294967296
+	:// `tick` ""quote"" 'q'
+    x_y_z 
+,  // @lengthOf(
+
+	[
+
+    3 	 // packet A { u8 x, }
+	,
+""a	b"" ,
+0123456789	]
+
+:
+i64_ ,0	: 
+leftPad  , ""`tick`"" :
+int 	 // " ++ [128512]%N ++ runes_of_ascii " emoji
+[""" ++ [28040; 24687]%N ++ runes_of_ascii """]
+// a // b
+: 
+Z9_
+    , }	,  @rightPad(  )int32
+
+    A , @calculatedFrom(  ""CRC32""
+
+)
+    @tag( 65535)
+
+@lengthOf(
+    packetx
+)zchar[ 	 // packet A { u8 x, }
+10 ] u8x
+    `two words`,
+    f32
+zchar@lengthOf(  Packet
+	)  ,
+
+}MetaData
+    u8x{ }
+packet	tag	{
+    repeat
+
+u8 T
+	`say ""hi""`,
+    leftPad ,	@lengthOf( matchKey// @lengthOf(
+
+	) 
+  // trailing space 
+	  /// triple
+    match 
+Foo
+
+    as
+T { [10  ,	10 ,
+
+    ""1""	,
+0 , 
+""packet""
+	, 4294967296,
+    ""a\""b""
+
+    ,
+
+    7  ] //	t
+:
+
+    msg_type 
+,  00 : 	 // packet A { u8 x, }
+
+  Pad 
+}
+	,repeat packetx 
+  // 50% %s
+{ Header
+
+Packet
+
+    ,uint16
+
+o ,
+	} ,  @rightPad(  ' ')
+    repeat int16 // trailing space 
+  Logon	,}
+
+")).
+Eval vm_compute in ("<<<M84>>>" ++ check (runes_of_ascii "
+packet lengthOf { @lengthOf(
+// a // b
+// packet A { u8 x, }
+uint8x
+) // " ++ [27880; 37322]%N ++ runes_of_ascii "
+@lengthOf(	Pad
+    ) // trailing space 
+a1
+@calculatedFrom(
+""packet""
+//x
+// trailing space 
+) ,  @lengthOf(
+    i8i8
+) repeat o
+{ zchar[ 7 ]
+// c
+// " ++ [128512]%N ++ runes_of_ascii " emoji
+leftPad @calculatedFrom( ""CRC32"" ), trueish@lengthOf(trueish ) , repeat u16	zchar `line1
+line2` , repeat
+    // 50% %s
+    uint8 f32a `say ""hi""`
+    ,
+    // @lengthOf(
+    } ,
+match	uint8x
+as
+T{//	t
+0 :
+    Logon 0123456789 : Logon ,
+""{,}"": stringy
+    , }	, leftPad@calculatedFrom(
+    // trailing space 
+    ""{,}"")
+`" ++ [233]%N ++ runes_of_ascii "`,@calculatedFrom(
+    ""1"" )
+    // `tick` ""quote"" 'q'
+    string_ { match Header as leftPad { [ 255 ]: x , [ 7]: u8x
+    ,
+    /// triple
+    [ 3
+    ,
+    """ ++ [128512]%N ++ runes_of_ascii """
+, 255 , ""packet"",
+""a	b"" , 7 , 1 // " ++ [27880; 37322]%N ++ runes_of_ascii "
+]// " ++ [128512]%N ++ runes_of_ascii " emoji
+:crc ,
+""x y""
+    // " ++ [128512]%N ++ runes_of_ascii " emoji
+    : string_,[ 42, ""`tick`"" ]	:	zchar , // trailing space 
+} ,} , } // trailing space 
+packet u128 { i16 leftPad	@calculatedFrom(  ""packet"") , // " ++ [128512]%N ++ runes_of_ascii " emoji
+i64_ @calculatedFrom( """ ++ [128512]%N ++ runes_of_ascii """
+    // packet A { u8 x, }
+    ) ,
+repeat lengthOf
+,As,
+    // `tick` ""quote"" 'q'
+    repeat
+A { repeat string
+    _x
+`{ , }` ,
+}
+, } packet crc{
+} MetaData
+    //x
+    float { // `tick` ""quote"" 'q'
+int16 roots	, i32 i8i8 ,
+    }
+")).
+Eval vm_compute in ("<<<M4213>>>" ++ check (runes_of_ascii "root packet A {
+    match rootA as Packet {
+        [3, ""// no comment"", """ ++ [128512]%N ++ runes_of_ascii """, """", """"] : int,
         [
-            ""a"", ""bb"", 007, ""d"", ""e"",
-            66, ""g"", ""h"", 9, ""j"",
-            ""k"", 12
-        ] : B,
-        2 : C,
+            0, ""1"", """ ++ [128512]%N ++ runes_of_ascii """, 0, ""x y"",
+            ""it's"", 00, ""it's""
+        ] : pack,
+        00 : trueish,
+        0123456789 : A,
+        [7, ""x y"", ""\" ++ [233]%N ++ runes_of_ascii """, ""1"", 0123456789] : Header,
+        007 : repeatCount,
+    },
+    char[] repeatCount @calculatedFrom(""{,}""),// " ++ [128512]%N ++ runes_of_ascii " emoji
+    float {
+        match repeatCount as u8x {
+            10 : a1,
+            //	t
+            3 : asx,
+            // `tick` ""quote"" 'q'
+            [""" ++ [28040; 24687]%N ++ runes_of_ascii """] : leftPad,
+            7 : asx,
+            007 : x,
+            ""x y"" : Logon,
+        },
+        zchar[42] repeatCount @calculatedFrom(""\n""),
+        float32 repeatCount `{ , }`,
+        string tag `
+                `,
+    },
+    x Logon `
+        `,
+    repeat u128,
+    @calculatedFrom(""a\\"")
+    zchar[3] Logon,
+    @tag(007)
+    Pad `100% of %d`,
+}
+
+packet chars {
+    @lengthOf(lengthOf)
+    @tag(10)
+    repeat string_,
+}
+
+packet Z9_ {
+    charz,
+    match metadata as charz {
+        7 : Foo,
+        42 : float,
+        ""a\""b"" : zchar,
+        [1, 4294967296, ""it's"", 1] : crc,
     },
 }")).
-Eval vm_compute in ("<<<M1552>>>" ++ check (runes_of_ascii "
+Eval vm_compute in ("<<<M542>>>" ++ check (runes_of_ascii "MetaData A
+{ f64 matchKey`tab	here`  , int16 lengthOf , pack
+    Foo, metadata
+    x_y_z, f64
+// packet A { u8 x, }
+//	t
+Z9_ ,}
+    root packet packetx {
+repeat
+    // packet A { u8 x, }
+    f32a Header `two words` ,
+//	t
+// " ++ [27880; 37322]%N ++ runes_of_ascii "
+@rightPad( '0' ) repeat
+i8i8 {uint8 body , }
+, match MetaDataX as lengthOf
+    {
+[ 10 , 4294967296
+, ""a\""b"" ,00
+,	"""",4294967296,
+""it's""
+    , 1
+    ]: _x , [ ""it's""
+] : A
+    , }
+    , rootA
+`" ++ [233]%N ++ runes_of_ascii "` , }
+    packet As {
+    @leftPad (
+    '0'
+) repeat
+float32 repeatCount
+    , char[
+4294967296
+] Z9_ @lengthOf( u) `doc` , repeat calculatedFrom {char[]packetx , repeat string options1	, } , repeat int , a1{ int16
+    len @calculatedFrom(  ""1""
+)
+,
+int8 x `line1
+line2` , char[ 1
+] asx
+//	t
+//
+,
+}, match Z9_ as msg_type {	255 : x_y_z ,
+""\n"" : len , 65535
+    : crc ,
+""a\\""
+//
+// `tick` ""quote"" 'q'
+://
+A, ""CRC32"" :
+Pad /// triple
+[ 4294967296 ,
+    ""packet"" ] :a1 , } ,
+    repeat f32a `line1
+line2`
+,
+@calculatedFrom( ""\" ++ [233]%N ++ runes_of_ascii """ ) len@calculatedFrom( """" ) `tab	here` ,} MetaData
+    stringy {
+    // @lengthOf(
+    string
+calculatedFrom, }
+")).
+Eval vm_compute in ("<<<M1154>>>" ++ check (runes_of_ascii "root packet f32a
+{ zchar[ 7 ]	MetaDataX @calculatedFrom(""a	b""
+)
+// a // b
+//x
+,
+@rightPad
+(
+' ')
+repeat// " ++ [27880; 37322]%N ++ runes_of_ascii "
+x { Packet Logon  , repeat Z9_	{
+repeat
+i32 repeatCount , }
+, u16 u128 @lengthOf(
+u128) , },
+x_y_z  { match
+    o as
+    x {
+7  : rootA	,
+[""" ++ [233]%N ++ runes_of_ascii "t" ++ [233]%N ++ runes_of_ascii """ ,
+    10 , ""a\""b""
+    , 255
+]:
+Header
+, ""`tick`"" : x/// triple
+[ ""a\""b"" ,
+    65535 ,""packet""  ,
+""// no comment""/// triple
+, ""// no comment"" ]  :
+    len, [ ""`tick`"" ]	: options1 ,
+} ,match float as charz{// @lengthOf(
+7
+:	u8x
+//	t
+//
+00:	options1 ,[ 3
+,""1""] : u8x,
+""x y"":
+    Header , ""a	b"" :
+    // @lengthOf(
+    chars ""it's"" : A
+,	},
+    } , u32	o @lengthOf(	BodyLength
+)
+// c
+//x
+`" ++ [233]%N ++ runes_of_ascii "` ,repeat char[]	len
+// a // b
+// " ++ [128512]%N ++ runes_of_ascii " emoji
+`" ++ [233]%N ++ runes_of_ascii "`
+    , @tag( 0123456789 ) repeat
+i8 packetx `a\` ,int
+    o
+    `` , @tag( 007	) char[]i8i8
+    @lengthOf( _x )
+// `tick` ""quote"" 'q'
+// `tick` ""quote"" 'q'
+,
+    repeat int
+,
+    } options {
+// a // b
+//
+As  =
+    // packet A { u8 x, }
+    '0'len = 00 // " ++ [128512]%N ++ runes_of_ascii " emoji
+; A
+    = f64 }
 packet
+    x_y_z { }
+")).
+Eval vm_compute in ("<<<M115>>>" ++ check (runes_of_ascii "packet // a // b
+body
+{
+    chars @calculatedFrom(
+""it's"") ,
+    repeat	body	, uint32 string_ `// not a comment` ,
+    trueish As, f32a int ,
+} packet f32a {  match matchKey
+as zchar { 007// " ++ [128512]%N ++ runes_of_ascii " emoji
+: A ,
+    },	@tag( // 50% %s
+4294967296
+) match options1 as
+crc {
+10 : As
+    ,
+}
+    , repeat  char[]	MetaDataX
+    ,  repeat
+zchar { uint64
+    roots
+`say ""hi""` , } ,
+i32 uint8x // " ++ [27880; 37322]%N ++ runes_of_ascii "
+,Header `// not a comment` , } packet  calculatedFrom// `tick` ""quote"" 'q'
+{@calculatedFrom( ""\n"" ) crc	f32a , repeat //	t
+i64
+u, @leftPad ( '0') calculatedFrom
+    @lengthOf( uint8x  ) ,As @lengthOf(
+body) ,// packet A { u8 x, }
+@lengthOf( crc
+) @lengthOf(	x )charz @lengthOf( tag
+// " ++ [128512]%N ++ runes_of_ascii " emoji
+// c
+)// " ++ [128512]%N ++ runes_of_ascii " emoji
+`it's`
+    ,
+repeat uint32
+MetaDataX , @leftPad ( '\x00') zchar[
+3
+//	t
+// 50% %s
+] int, }
+// packet A { u8 x, }
+// @lengthOf(
+packet As
+// @lengthOf(
+//
+{ @leftPad ( '\x00' ) repeat lengthOf pack `it's` , @lengthOf( rootA )u128
+, } // " ++ [27880; 37322]%N)).
+Eval vm_compute in ("<<<M4539>>>" ++ check (runes_of_ascii "packet Header {
+    @lengthOf(matchKey)
+    @lengthOf(metadata)
+    @tag(4294967296)
+    match f32a as chars {
+        """ ++ [128512]%N ++ runes_of_ascii """ : int,
+    },
+    match roots as Packet {
+        255 : x_y_z,
+    },
+    char[] trueish @lengthOf(i64_) `line1
+    line2`,
+    match f32a as x_y_z {
+        255 : a1,
+        7 : string_,
+    },
+    Pad @calculatedFrom(""" ++ [128512]%N ++ runes_of_ascii """),
+    char[65535] pack,
+    @lengthOf(x)
+    // " ++ [27880; 37322]%N ++ runes_of_ascii "
+    match metadata as metadata {
+        42 : rootA,
+        65535 : packetx,
+        [7] : zchar,
+        [""it's"", ""\n"", 42] : Logon,
+        65535 : body,
+        // trailing space 
+    },
+    @tag(00)
+    @rightPad('\x00')
+    float `two words`,
+    tag {
+        match calculatedFrom as rootA {
+            [""1"", ""CRC32"", 1, 00] : _x,
+            1 : Z9_,
+            """" : x,
+        },
+    },
+    @calculatedFrom(""" ++ [128512]%N ++ runes_of_ascii """)
+    @lengthOf(lengthOf)
+    @calculatedFrom("""")
+    repeat int16 x,
+}")).
+Eval vm_compute in ("<<<M3575>>>" ++ check (runes_of_ascii "options { LittleEndian // c2a
+  // c2b
+= // c3a
+  // c3b
+true // c4
+; } packet // c7
+Logon
+    // c8
+{ // c9a
+  // c9b
+u8 // c10a
+  // c10b
+x // c11a
+  // c11b
+, // c12
+} // c13
+packet
+    // c14
+Logout // c15
+{ // c16
+u16 // c17
+reason // c18a
+  // c18b
+, // c19
+} // c20a
+  // c20b
+root packet
+    // c22
+Frame
+    // c23
+{ u16 // c25
+Kind , // c27
+u16 // c28
+Kind2 , // c30a
+  // c30b
+match // c31a
+  // c31b
+Kind // c32
+as // c33a
+  // c33b
+Body // c34a
+  // c34b
+{
+    // c35
+1 // c36a
+  // c36b
+: Logon , // c39
+[ // c40
+2 // c41a
+  // c41b
+, 3 // c43
+, 4 ]
+    // c46
+: Logout , // c49
+100 // c50
+:
+    // c51
+Logon // c52a
+  // c52b
+,
+    // c53
+}
+    // c54
+, // c55
+match Kind2
+    // c57
+as Trailer
+    // c59
+{ // c60a
+  // c60b
+0
+    // c61
+: // c62a
+  // c62b
+Logout // c63a
+  // c63b
+, }
+    // c65
+, // c66a
+  // c66b
+} // c67a
+  // c67b
+")).
+Eval vm_compute in ("<<<M4106>>>" ++ check (runes_of_ascii "
+MetaData
 
-    A
+    // 50% %s
 
-{match k
+//	t
+
+	tag
+
+{ 
+}
+	root
+
+packet int 
+    // packet A { u8 x, }
+{ @calculatedFrom(
+""`tick`""
+)
+
+repeat string
+len 
+// c
+      `a\` , 
+@calculatedFrom(	""{,}""
+)
+	char[
+0
+
+    ]
+
+    body
+	@lengthOf(  MetaDataX 
+)
+	,
+
+u32 
+matchKey  @calculatedFrom( ""x y"" )	`say ""hi""` , repeat
+    f32
+leftPad//x
+	,@rightPad
+
+    ( )match
+	crc
+    as 
+A
+
+{[ ""x y""
+, 4294967296 
+,42
+, """ ++ [233]%N ++ runes_of_ascii "t" ++ [233]%N ++ runes_of_ascii """ 
+,
+
+10
+] :
+a1
+
+007
+	:
+x_y_z  ,
+7 :repeatCount,
+
+    ""abc""
+: x  , 	 /// triple
+		""""	:Logon[
+
+""\n""
+    ,0123456789
+]
+: roots// c
+,
+	} , match
+	lengthOf
 as
-    n
+    zchar 
+{  10 
+:	u8x,
+    42  : a1  [ 
+""packet""
+	] :  T
+	,
+[
+
+    3 
+    //	t
+//
+	,007
+
+    , 65535 
+,255  ,
+
+    ""a\""b"" ,
+10
+
+, ""// no comment"" ] 
+:
+
+    metadata// packet A { u8 x, }
+
+	255 :
+
+    i64_
+
+, } , float
+
+metadata
+
+,}")).
+Eval vm_compute in ("<<<M662>>>" ++ check (runes_of_ascii "root packet
+    repeatCount{
+// c
+// `tick` ""quote"" 'q'
+repeat
+i32 int , /// triple
+matchKey	x_y_z	`" ++ [28040; 24687; 31867; 22411]%N ++ runes_of_ascii "` ,Z9_
+    //	t
+    @calculatedFrom(
+""packet""
+) `say ""hi""` // a // b
+,repeat falsey {
+match
+i8i8 as
+    float{""{,}"" : options1[ 4294967296 ]  :
+    BodyLength, 42 : trueish ,// trailing space 
+}
+    , uint8 Z9_ , }
+,
+    }
+    MetaData
+    zchar {
+    Header i8i8	`
+` //
+,
+// packet A { u8 x, }
+// c
+metadata zchar// packet A { u8 x, }
+, zchar[
+// packet A { u8 x, }
+//x
+3  ]
+float  , string
+    matchKey  `a\` ,	stringy	x_y_z
+`two words`
+    ,
+    } MetaData x {
+    i8i8 float
+`it's`
+    // packet A { u8 x, }
+    ,
+_x zchar
+//x
+// packet A { u8 x, }
+`a\`
+// @lengthOf(
+// 50% %s
+,  f64 Foo
+, char[
+    0
+] Z9_`line1
+line2`
+,	char[  42 ]
+    //	t
+    asx `it's` , }")).
+Eval vm_compute in ("<<<M386>>>" ++ check (runes_of_ascii "
+options {
+// packet A { u8 x, }
+//
+Packet // " ++ [128512]%N ++ runes_of_ascii " emoji
+= '\x00'options1  = false zchar =  u16 o	= ' ' ;  } options
+{}
+//	t
+// `tick` ""quote"" 'q'
+packet i64_	{} packet Packet { match
+Z9_ as
+    // " ++ [27880; 37322]%N ++ runes_of_ascii "
+    falsey{
+    65535
+    : x_y_z
+""CRC32"" :
+    float, },
+i8 len , @tag( 7)
+repeat rootA
+    x_y_z
+    ,@tag( 00
+//x
+//x
+)	zchar[007 ]
+x_y_z
+    // trailing space 
+    `it's`  ,
+    @calculatedFrom( ""CRC32"" ) @tag(10 )  char[] BodyLength , // trailing space 
+repeat  string Header,@rightPad
+    //
+    ( ) i16 trueish `100% of %d` ,zchar[
+    00 ] trueish ,	@rightPad
+    ( )  @calculatedFrom( ""\n""
+    )	repeat char[] MetaDataX
+`doc` , } MetaData roots //x
+{
+zchar[42 ]  x ,string charz `u8 x,` ,string trueish
+    , u16 falsey  ,
+    }")).
+Eval vm_compute in ("<<<M19>>>" ++ check (runes_of_ascii "packet	falsey{
+@lengthOf(
+//	t
+// c
+pack) int32 chars  ,
+    zchar  `{ , }`,
+    i8 BodyLength , match body
+    as Logon
+    { [
+10 // trailing space 
+]// a // b
+:
+    roots
+    ,	""" ++ [128512]%N ++ runes_of_ascii """ // packet A { u8 x, }
+:
+metadata , } , @calculatedFrom(
+//x
+// " ++ [27880; 37322]%N ++ runes_of_ascii "
+""" ++ [128512]%N ++ runes_of_ascii """ ) @lengthOf(
+    u128 )
+BodyLength
+msg_type`" ++ [233]%N ++ runes_of_ascii "`, repeat
+    falsey
+// " ++ [27880; 37322]%N ++ runes_of_ascii "
+// c
+, @calculatedFrom( ""CRC32""	) repeat char[ 007	] uint8x	, }//	t
+MetaData x {uint16 x
+`tab	here`, i32	falsey, char[ 10] calculatedFrom`doc`
+    , a1 BodyLength `" ++ [233]%N ++ runes_of_ascii "` ,// trailing space 
+u8 Z9_`100% of %d`,i32 leftPad
+    `two words` ,
+}	MetaData
+len
+/// triple
+// a // b
+{ T Packet , int64	x `crlf
+line` ,
+    uint32 MetaDataX ,zchar[
+4294967296 ] matchKey
+`doc` , }
+")).
+Eval vm_compute in ("<<<M3751>>>" ++ check (runes_of_ascii "packet MetaDataX {
+    @lengthOf(crc)
+    //
+    match u128 as float {
+        ""a	b"" : Header,
+        [3] : zchar,
+        00 : leftPad,
+        // packet A { u8 x, }
+        """ ++ [233]%N ++ runes_of_ascii "t" ++ [233]%N ++ runes_of_ascii """ : repeatCount,
+        42 : A,
+    },//	t
+}
+
+packet options1 {
+    match u128 as tag {
+        7 : chars,
+        // " ++ [27880; 37322]%N ++ runes_of_ascii "
+        42 : options1,
+        255 : x,
+        255 : chars,
+        // trailing space 
+        [""" ++ [28040; 24687]%N ++ runes_of_ascii """] : stringy,
+    },
+    char[] stringy @calculatedFrom(""// no comment""),
+    uint16 string_ `crlf
+    line`,
+    // c
+}
+
+root packet trueish {
+    @lengthOf(matchKey)
+    @lengthOf(T)
+    repeat char[] u,
+    @lengthOf(A)
+    zchar[00] chars @lengthOf(T) `" ++ [28040; 24687; 31867; 22411]%N ++ runes_of_ascii "`,
+}")).
+Eval vm_compute in ("<<<M552>>>" ++ check (runes_of_ascii "MetaData
+    // " ++ [27880; 37322]%N ++ runes_of_ascii "
+    string_ {charz uint8x `say ""hi""`//	t
+,float64 float , tag// @lengthOf(
+As	`u8 x,` , }options { len = ' ' ; }root packet
+i8i8 { match charz as	o  { [""" ++ [28040; 24687]%N ++ runes_of_ascii """, ""\" ++ [233]%N ++ runes_of_ascii """, 3	,
+// packet A { u8 x, }
+// @lengthOf(
+007
+, ""a\""b"" ,1 // c
+] : msg_type ,""CRC32"" // " ++ [128512]%N ++ runes_of_ascii " emoji
+: x  , }
+, uint16 a1 @calculatedFrom( ""1""
+    ) ,Z9_@calculatedFrom(
+""abc""
+)
+`" ++ [28040; 24687; 31867; 22411]%N ++ runes_of_ascii "`
+    ,
+Header @lengthOf( len ) , @lengthOf( int
+)  int64
+// c
+// packet A { u8 x, }
+msg_type ,	trueish ,
+uint64 Logon`two words` , float	{	a1 calculatedFrom
+    `{ , }` , },@tag( 65535 )	_x /// triple
+@lengthOf( tag )`say ""hi""`, } packet falsey
+{
+    // " ++ [27880; 37322]%N ++ runes_of_ascii "
+    repeat x_y_z, }
+")).
+Eval vm_compute in ("<<<M4549>>>" ++ check (runes_of_ascii "packet float {
+    @tag(7)
+    @calculatedFrom(""a	b"")
+    match Foo as zchar {
+        00 : Logon,
+        ""`tick`"" : Pad,
+        [1, """ ++ [233]%N ++ runes_of_ascii "t" ++ [233]%N ++ runes_of_ascii """, ""// no comment"", ""\" ++ [233]%N ++ runes_of_ascii """, 007] : f32a,
+        ""CRC32"" : i64_,
+    },
+    @lengthOf(A)
+    // c
+    char[0] u128 `u8 x,`,
+}
+
+packet Logon {
+}
+
+root packet a1 {
+    f64 asx,
+    @leftPad()
+    char Pad,
+    @leftPad()
+    repeat msg_type `
+        `,
+    @lengthOf(tag)
+    uint64 o @lengthOf(A),
+    @lengthOf(Logon)
+    /// triple
+    //	t
+    repeat string i8i8 `" ++ [233]%N ++ runes_of_ascii "`,
+    char[65535] float,
+}
+
+options {
+    Header = false;
+    options1 = '0'
+    asx = 65535;
+    crc = '0';
+}")).
+Eval vm_compute in ("<<<M3646>>>" ++ check (runes_of_ascii "  packet
+    Logon 
+
+    // c
 	{
 
-[ ""a""  , ""bb"" 
+@lengthOf(
+	body ) 
+repeat i8i8	`two words`  ,
+repeat chars
+Pad
+
+    ,repeat
+    a1 
+    //	t
+	  //
+    {trueish
+	x
+
+    `
+`
+
+,}
+,	@lengthOf(Header
+) 
+lengthOf
+
+    BodyLength`u8 x,`
+
+    ,
+repeat  char[
+
+    007	]packetx ,  @lengthOf(
+f32a	)
+	match 
+crc
+as
+
+    stringy
+
+    { [ ""a	b"" , """" 
+,
+
+    ""a	b""
+
+,
+1 , 255
+    ]
+
+    :matchKey  ,	} ,
+	repeat
+    string
+    tag , 
+@lengthOf( int )@rightPad  ()  @lengthOf(
+leftPad )
+	char[] T @lengthOf(	int )
+
+`{ , }`
 , 
-007
-,""d"" 
-,
-""e""
-,
-
-66
-, 
-""g"",
-
-    ""h"" , 9
-
-,
-	""j"",
-    ""k""] :
-    B 
-,
-2  :
-
-    C
 } 
-,
-	}
+packet  u8x
+	{  repeat
+	char[]  // @lengthOf(
+	stringy  , }")).
+Eval vm_compute in ("<<<M485>>>" ++ check (runes_of_ascii "packet Z9_ {
+@lengthOf( // c
+_x )	@tag( 4294967296 ) lengthOf @lengthOf( string_ ) , @leftPad
+( '0') repeat string crc , i8
+    i8i8@lengthOf( A ) ,
+    match As  as Packet
+    {
+00 :
+    stringy
+,65535 :  Pad  ""it's"" :x_y_z, """ ++ [233]%N ++ runes_of_ascii "t" ++ [233]%N ++ runes_of_ascii """ :
+// `tick` ""quote"" 'q'
+// a // b
+float  , } , char o , @rightPad() f32a@calculatedFrom( ""a\""b"")
+`// not a comment`	,@calculatedFrom(
+    ""x y""
+    )
+string
+    chars
+    @calculatedFrom(""1""
+    ) // 50% %s
+`say ""hi""` , repeat
+f64 matchKey, repeat
+    char[]
+i64_ `u8 x,`,
+    char[
+00 ] int  @lengthOf( string_ ),
+    }
 ")).
-Eval vm_compute in ("<<<M1548>>>" ++ check (runes_of_ascii "packet A {
+Eval vm_compute in ("<<<M4111>>>" ++ check (runes_of_ascii "packet pack {
+}
+
+root packet msg_type {
+    @calculatedFrom(""abc"")
+    //
+    u8 Packet @lengthOf(body),
+    repeat u128 stringy,
+    //
+    repeat float64 u8x ``,
+    match metadata as int {
+        [4294967296, 0123456789, 007, """ ++ [128512]%N ++ runes_of_ascii """, ""1""] : x_y_z,
+        7 : int,
+        007 : len,
+        """ ++ [28040; 24687]%N ++ runes_of_ascii """ : string_,
+    },
+    repeat zchar[3] pack `two words`,
+    @calculatedFrom(""x y"")
+    char[007] x_y_z,
+    zchar[10] u @lengthOf(x),
+}
+
+packet repeatCount {
+    string charz `it's`,
+}
+
+options {
+    A = ""a\\""
+    crc = true;
+    crc = ' '
+}")).
+Eval vm_compute in ("<<<M4170>>>" ++ check (runes_of_ascii "  root packet
+BodyLength { @tag(
+
+    007	) @tag(
+
+    0123456789
+)
+@lengthOf(	Pad ) 
+
+    // packet A { u8 x, }
+    match
+    // @lengthOf(
+	  zchar
+
+as msg_type {
+[
+""`tick`"" ] : calculatedFrom 
+,00
+
+    :
+
+    uint8x	, 0123456789	:
+
+f32a
+	[
+
+    10
+
+    ,""// no comment"" ,
+""" ++ [233]%N ++ runes_of_ascii "t" ++ [233]%N ++ runes_of_ascii """
+	, 7]  : chars //	t
+	""x y""	:// 50% %s
+
+zchar,
+[	""a	b""
+	,
+	00	, ""a	b""
+,
+	65535
+
+,
+7
+    ,""CRC32"" ,
+	0123456789
+    ]  :
+    x
+
+    // 50% %s
+	  // a // b
+
+	},  @lengthOf(
+    Pad  //	t
+
+	) repeat 
+asx 
+matchKey ,
+
+    }")).
+Eval vm_compute in ("<<<M3990>>>" ++ check (runes_of_ascii "// trailing space 
+root	// `tick` ""quote"" 'q'
+  packet	// `tick` ""quote"" 'q'
+	  roots
+
+    {
+	match	crc
+as
+	Pad  {
+    0:float [
+    00 , ""\n""
+, 
+  //x
+
+  // trailing space 
+    	0 ,
+    ""`tick`""
+
+    ,
+    65535
+,
+    // `tick` ""quote"" 'q'
+""""  , 
+""" ++ [28040; 24687]%N ++ runes_of_ascii """,
+	4294967296 ]	:
+// @lengthOf(
+Z9_
+,} 
+,
+
+}
+root
+packet
+chars	{	// c
+	@rightPad (	' '
+) falsey
+	{ rootA ,} , zchar[
+0123456789
+	] 
+// 50% %s
+  // " ++ [27880; 37322]%N ++ runes_of_ascii "
+  msg_type @lengthOf(asx)	//	t
+
+  ,
+
+u@calculatedFrom(
+
+    ""a	b"" )
+	`a\` ,
+} ")).
+Eval vm_compute in ("<<<M3657>>>" ++ check (runes_of_ascii "// packet A { u8 x, }
+root packet lengthOf {
+    repeat int8 options1,
+    string uint8x @lengthOf(len) `a\`,
+    @lengthOf(i8i8)
+    repeat int len,
+    @calculatedFrom(""" ++ [233]%N ++ runes_of_ascii "t" ++ [233]%N ++ runes_of_ascii """)
+    string u8x @calculatedFrom(""\n"") `it's`,
+    @leftPad('0')
+    @calculatedFrom(""CRC32"")
+    @leftPad()
+    i16 string_ `" ++ [233]%N ++ runes_of_ascii "`,
+    @lengthOf(i64_)
+    uint8 Foo,
+    @tag(65535)
+    // @lengthOf(
+    rootA `it's`,
+}
+
+options {
+    leftPad = ""it's""
+}
+
+MetaData x_y_z {
+    string body,// c
+}")).
+Eval vm_compute in ("<<<M725>>>" ++ check (runes_of_ascii "options {BodyLength = int8; }
+root
+packet options1 { @tag( 007
+    )
+/// triple
+// packet A { u8 x, }
+@rightPad (  )// `tick` ""quote"" 'q'
+char[]
+    MetaDataX
+    @calculatedFrom(
+// " ++ [128512]%N ++ runes_of_ascii " emoji
+// packet A { u8 x, }
+""a	b"" ) `100% of %d`
+    , float32 u8x , string
+As@lengthOf(	tag
+    ) , @tag(
+4294967296
+)@tag(
+00 )@rightPad ( ' '
+)body _x , i8 u8x `a\` ,	repeat
+    int8  tag
+`
+` , char[] Pad  `u8 x,` ,
+int64 rootA `
+`
+    ,
+} options{ // c
+}
+")).
+Eval vm_compute in ("<<<M4258>>>" ++ check (runes_of_ascii "root packet packetx {
+    char[255] T,
+    @tag(00)
+    // packet A { u8 x, }
+    len {
+        string repeatCount `two words`,
+        repeat Logon u,
+        uint64 lengthOf,/// triple
+        char[] Logon `{ , }`,
+    },
+    repeat u64 asx,
+    @calculatedFrom(""a\""b"")
+    repeat int8 MetaDataX,
+    @calculatedFrom(""abc"")
+    uint64 tag `// not a comment`,
+    @tag(255)
+    i8 len,// packet A { u8 x, }
+    uint8 chars `it's`,
+}")).
+Eval vm_compute in ("<<<M3937>>>" ++ check (runes_of_ascii "packet u8x {
+    char[1] roots,
+    msg_type @calculatedFrom(""" ++ [28040; 24687]%N ++ runes_of_ascii """) `{ , }`,
+    rootA,
+}
+
+packet stringy {
+    charz,
+    // 50% %s
+    // `tick` ""quote"" 'q'
+    repeat options1 {
+        asx,
+        Logon {
+            i64_ metadata `
+                        `,
+        },
+        i64 metadata,
+        repeat packetx {
+            charz @lengthOf(Header),
+        },
+    },
+}
+
+options {
+    leftPad = 10;
+}// " ++ [128512]%N ++ runes_of_ascii " emoji")).
+Eval vm_compute in ("<<<M560>>>" ++ check (runes_of_ascii "
+packet
+calculatedFrom  { int16
+float `u8 x,` , @rightPad (	)char[]
+// a // b
+// `tick` ""quote"" 'q'
+Logon,char[ 3 // a // b
+]packetx,
+match As as
+rootA {[ 4294967296
+    // " ++ [128512]%N ++ runes_of_ascii " emoji
+    ] : Logon
+},} packet pack {  @lengthOf(charz )  repeat
+int64 x_y_z , @calculatedFrom(""abc"" ) Z9_{
+options1 @lengthOf( i64_ )
+    , string stringy`tab	here`
+, } , zchar[ 255
+] uint8x
+@lengthOf(
+body) `two words` ,
+}
+")).
+Eval vm_compute in ("<<<M1012>>>" ++ check (runes_of_ascii "options	{ asx
+    /// triple
+    =	""" ++ [28040; 24687]%N ++ runes_of_ascii """
+;	_x=	""" ++ [128512]%N ++ runes_of_ascii """
+_x
+=
+    int16
+;
+}
+options {
+    int= 255
+; }packet a1 {
+match	Foo // 50% %s
+as Z9_
+{
+// @lengthOf(
+/// triple
+[
+    ""packet""]
+    : string_	,  },// @lengthOf(
+@lengthOf( trueish	) repeat  i8i8	{ uint32 options1  @calculatedFrom( ""a	b"" )	`" ++ [233]%N ++ runes_of_ascii "`
+// " ++ [128512]%N ++ runes_of_ascii " emoji
+// packet A { u8 x, }
+,
+    string x @calculatedFrom( ""CRC32"")
+    , } , //x
+}")).
+Eval vm_compute in ("<<<M4211>>>" ++ check (runes_of_ascii "  packet
+
+uint8x  
+  // packet A { u8 x, }
+  	// @lengthOf(
+    {
+Header
+{
+	uint16 metadata
+
+    @lengthOf(  // " ++ [27880; 37322]%N ++ runes_of_ascii "
+
+MetaDataX  // c
+	) `// not a comment` 
+,	} ,
+
+    metadata	repeatCount,
+    repeat 
+x_y_z, 
+// @lengthOf(
+    //
+  chars
+A
+	,
+
+packetx @calculatedFrom(""a\\"" )  /// triple
+	`line1
+line2`,
+	char[
+
+    007	//	t
+
+] a1  @lengthOf(
+
+A)
+
+    `
+`  ,
+	} ")).
+Eval vm_compute in ("<<<M521>>>" ++ check (runes_of_ascii "root
+    packet string_ {  trueish{
+f32a o , repeat  u8x
+    `{ , }`
+,} ,float32
+    packetx
+`a\`, // a // b
+match  u128 // " ++ [128512]%N ++ runes_of_ascii " emoji
+as f32a { """": x,  ""abc""
+:
+    pack  ,
+""\" ++ [233]%N ++ runes_of_ascii """
+    : f32a ""`tick`""
+    : string_ // " ++ [27880; 37322]%N ++ runes_of_ascii "
+, }, calculatedFrom@lengthOf( stringy //
+)//
+,
+    @leftPad (' ' /// triple
+) repeat uint64 len
+// " ++ [27880; 37322]%N ++ runes_of_ascii "
+// `tick` ""quote"" 'q'
+`tab	here` , }")).
+Eval vm_compute in ("<<<M4057>>>" ++ check (runes_of_ascii "packet a1 {
+    @calculatedFrom(""`tick`"")
+    rootA {
+        // c
+        BodyLength Z9_,
+    },
+    match Foo as int {
+        007 : x_y_z,
+        """ ++ [128512]%N ++ runes_of_ascii """ : roots,
+        0123456789 : uint8x,
+    },
+    match A as stringy {
+        [0123456789, ""CRC32""] : Foo,
+    },
+    @rightPad('0')
+    u8 Packet,
+    u8 MetaDataX @calculatedFrom(""`tick`""),
+}")).
+Eval vm_compute in ("<<<M3873>>>" ++ check (runes_of_ascii "// packet A { u8 x, }
+  options
+    { float =string }options {}packet	options1
+    {
+
+}	packet
+	o {} 
+MetaData float 
+{tag	metadata
+``
+,
+	i32	// 50% %s
+    o
+`// not a comment`, u32  len, 
+zchar[ 3
+] 
+      // `tick` ""quote"" 'q'
+  // " ++ [27880; 37322]%N ++ runes_of_ascii "
+
+Header ,  o
+    zchar
+
+    ``
+    ,
+o 	 // @lengthOf(
+		stringy
+
+`two words`	//
+	, }
+")).
+Eval vm_compute in ("<<<M10>>>" ++ check (runes_of_ascii "options
+{ x_y_z = '\x00'
+; // c
+float
+=char[
+255
+// @lengthOf(
+//
+] ;
+Header
+    = // packet A { u8 x, }
+""a\\"" /// triple
+;
+// a // b
+//
+Pad =""a\\""
+; crc= int32
+; }packet
+matchKey {	char[] T `two words`
+    ,
+string
+roots
+,	} MetaData
+u
+{ }
+options{ _x = true
+    ;  metadata// " ++ [128512]%N ++ runes_of_ascii " emoji
+= true ; len= ' '  ;}
+")).
+Eval vm_compute in ("<<<M3777>>>" ++ check (runes_of_ascii "
+
+  packet
+i64_
+
+{match
+
+stringy as
+    body
+{""\n""
+:
+
+rootA
+	,
+    ""\" ++ [233]%N ++ runes_of_ascii """
+
+    :
+
+    zchar
+3
+: A[ """ ++ [128512]%N ++ runes_of_ascii """
+	,  1 ,
+	""" ++ [233]%N ++ runes_of_ascii "t" ++ [233]%N ++ runes_of_ascii """, 255 ,
+0123456789
+
+,
+	007
+]:pack
+    , 
+3 	 // trailing space 
+	:
+	tag
+    ,
+	[
+""" ++ [128512]%N ++ runes_of_ascii """,
+
+1	// " ++ [128512]%N ++ runes_of_ascii " emoji
+	,""a	b""
+
+    ,	""packet"",""a\\""
+    ,  """ ++ [28040; 24687]%N ++ runes_of_ascii """
+    , 10 ]
+:
+lengthOf  , } 
+, }
+")).
+Eval vm_compute in ("<<<M4307>>>" ++ check (runes_of_ascii "packet _x {
+    repeat string_ {
+        repeat zchar[3] u `doc`,
+    },
+    A @calculatedFrom(""abc"") `u8 x,`,
+    matchKey {
+        /// triple
+        // " ++ [128512]%N ++ runes_of_ascii " emoji
+        repeat string body,
+        zchar[4294967296] uint8x `u8 x,`,
+        repeat Pad,
+        Z9_ T,//x
+    },
+    u8 int,
+}")).
+Eval vm_compute in ("<<<M272>>>" ++ check (runes_of_ascii "root packet
+    _x { @rightPad ( )//	t
+i64 body  @calculatedFrom( ""a	b""
+    // c
+    )  ,} packet
+    roots { match Foo as	Header{[
+""\" ++ [233]%N ++ runes_of_ascii """
+]
+: msg_type, [ ""\" ++ [233]%N ++ runes_of_ascii """ ,
+    65535 ,// 50% %s
+""a\""b""] // " ++ [27880; 37322]%N ++ runes_of_ascii "
+: // packet A { u8 x, }
+calculatedFrom ,255 :// " ++ [27880; 37322]%N ++ runes_of_ascii "
+int
+,  ""packet""
+    : leftPad
+} ,	}
+
+")).
+Eval vm_compute in ("<<<M3731>>>" ++ check (runes_of_ascii "
+packet i64_{char[]
+        // `tick` ""quote"" 'q'
+  	// a // b
+
+  i8i8
+@lengthOf( i8i8)
+	`say ""hi""`,
+}
+root
+
+    packet 
+Logon
+    { match 
+Logon as
+A
+    {	[  4294967296
+
+    ]
+
+:
+trueish""a\""b""
+	: 
+tag,
+	[ 10 ,
+""\" ++ [233]%N ++ runes_of_ascii """ ,
+    ""x y""]: A
+, """ ++ [233]%N ++ runes_of_ascii "t" ++ [233]%N ++ runes_of_ascii """:
+rootA
+
+} ,
+}  MetaData 
+falsey
+{}")).
+Eval vm_compute in ("<<<M2036>>>" ++ check (runes_of_ascii "packet	packetx { // trailing space 
+x_y_z
+{
+string
+charz ,
+string x// @lengthOf(
+`two words`
+    ,  u8x { // `tick` ""quote"" 'q'
+charz `100% of %d` // packet A { u8 x, }
+,}// " ++ [27880; 37322]%N ++ runes_of_ascii "
+,} , }
+    // a // b
+    packet metadata {  @leftPad # ( '0') repeat i32 options1 ,u64 uint8x , }
+")).
+Eval vm_compute in ("<<<M1938>>>" ++ check (runes_of_ascii "packet	packetx { // trailing space 
+x_y_z
+{
+string
+charz ,
+string x// @lengthOf(
+`two words`
+    ,  u8x { // `tick` ""quote"" 'q'
+charz `100% of %d` // packet A { u8 x, }
+,}// " ++ [27880; 37322]%N ++ runes_of_ascii "
+}, , }
+    // a // b
+    packet metadata {  @leftPad ( '0') repeat i32 options1 ,u64 uint8x , }
+")).
+Eval vm_compute in ("<<<M1936>>>" ++ check (runes_of_ascii "packet	packetx { // trailing space 
+x_y_z
+{
+string
+charz ,
+string x// @lengthOf(
+`two words`
+    ,  u8x { // `tick` ""quote"" 'q'
+charz `100% of %d` // packet A { u8 x, }
+,}// " ++ [27880; 37322]%N ++ runes_of_ascii "
+} , }
+    // a // b
+    packet metadata {  @leftPad ( '0') repeat i32 options1 ,u64 uint8x , }
+")).
+Eval vm_compute in ("<<<M4204>>>" ++ check (runes_of_ascii "options {
+    Header = ' ';
+    u128 = 42;
+    // " ++ [128512]%N ++ runes_of_ascii " emoji
+}
+
+options {
+    T = ""\" ++ [233]%N ++ runes_of_ascii """
+    BodyLength = 0123456789
+    Z9_ = string;
+    leftPad = 255;
+    x = ' ';// " ++ [27880; 37322]%N ++ runes_of_ascii "
+}
+
+packet Header {
+}
+
+root packet T {
+    @lengthOf(calculatedFrom)
+    float64 Z9_ @calculatedFrom(""" ++ [28040; 24687]%N ++ runes_of_ascii """),
+}")).
+Eval vm_compute in ("<<<M1317>>>" ++ check (runes_of_ascii "options { i8i8 // @lengthOf(
+= // " ++ [128512]%N ++ runes_of_ascii " emoji
+true}packet Header
+{ @lengthOf( f32a
+// @lengthOf(
+// @lengthOf(
+)// 50% %s
+string
+Header
+    //
+    `
+`
+, }
+root // packet A { u8 x, }
+packet calculatedFrom{ @rightPad () repeat matchKey string_// `tick` ""quote"" 'q'
+,} //	t")).
+Eval vm_compute in ("<<<M1921>>>" ++ check (runes_of_ascii "packet	packetx { // trailing space 
+x_y_z
+{
+string
+charz ,
+string x// @lengthOf(
+`two words`
+    ,  u8x { // `tick` ""quote"" 'q'
+charz  // packet A { u8 x, }
+,}// " ++ [27880; 37322]%N ++ runes_of_ascii "
+,} , }
+    // a // b
+    packet metadata {  @leftPad ( '0') repeat i32 options1 ,u64 uint8x , }
+")).
+Eval vm_compute in ("<<<M3859>>>" ++ check (runes_of_ascii "
+packet  // 50% %s
+    trueish{	lengthOf  len	``	, @leftPad	// @lengthOf(
+
+( 
+' '
+)	@calculatedFrom( """" 
+)
+
+@tag(  4294967296 	 // packet A { u8 x, }
+  )Z9_
+	falsey`doc`,
+	char[]
+	lengthOf@lengthOf(charz  )
+
+, u16
+BodyLength
+	`a\` 
+    // trailing space 
+	,  }")).
+Eval vm_compute in ("<<<M3471>>>" ++ check (runes_of_ascii "// top
+options // c0
+{
+    // c1
+LittleEndian // c2a
+  // c2b
+= // c3
+true ; // c5
+} root // c7a
+  // c7b
+packet // c8a
+  // c8b
+P // c9
+{ // c10
+u16 a , u32 // c14
+Sum // c15
+@calculatedFrom( // c16
+""CRC32"" // c17a
+  // c17b
+) // c18
+,
+    // c19
+}
+    // c20
+")).
+Eval vm_compute in ("<<<M2136>>>" ++ check (runes_of_ascii "packet// packet A { u8 x, }
+repeatCount	{// packet A { u8 x, }
+@leftPad ( '\x00'
+) repeat u8x MetaDataX `crlf
+line`,
+    repeat
+    char[] MetaDataX
+    ,
+u64	@calculatedFrom(uint8x""a\""b""
+// c
+// packet A { u8 x, }
+) `tab	here`
+,//
+}MetaData pack
+    {
+    }
+")).
+Eval vm_compute in ("<<<M2054>>>" ++ check (runes_of_ascii "i16// packet A { u8 x, }
+repeatCount	{// packet A { u8 x, }
+@leftPad ( '\x00'
+) repeat u8x MetaDataX `crlf
+line`,
+    repeat
+    char[] MetaDataX
+    ,
+u64	uint8x@calculatedFrom(""a\""b""
+// c
+// packet A { u8 x, }
+) `tab	here`
+,//
+}MetaData pack
+    {
+    }
+")).
+Eval vm_compute in ("<<<M193>>>" ++ check (runes_of_ascii "
+MetaData options1{ asx trueish , i8i8
+Header `
+` , char[00
+] stringy,
+i16
+    int `100% of %d`
+    ,i64 o`crlf
+line`
+, string
+u8x, } options// @lengthOf(
+{ _x =4294967296 } //x
+MetaData asx { // `tick` ""quote"" 'q'
+zchar[ 42// a // b
+]
+uint8x
+    , }
+")).
+Eval vm_compute in ("<<<M2094>>>" ++ check (runes_of_ascii "packet// packet A { u8 x, }
+repeatCount	{// packet A { u8 x, }
+@leftPad ( '\x00'
+) repeat u8x  `crlf
+line`,
+    repeat
+    char[] MetaDataX
+    ,
+u64	uint8x@calculatedFrom(""a\""b""
+// c
+// packet A { u8 x, }
+) `tab	here`
+,//
+}MetaData pack
+    {
+    }
+")).
+Eval vm_compute in ("<<<M1621>>>" ++ check (runes_of_ascii "packet calculatedFrom
+{ @calculatedFrom( ""a\\"" ) zchar[ 4294967296 $ ]
+calculatedFrom@lengthOf( pack )	`100% of %d` ,char[]body@calculatedFrom( ""// no comment"" )  ,
+@tag( 007) //x
+int8
+leftPad`it's` , repeat pack
+    { repeat char[ 3] body
+,},
+}")).
+Eval vm_compute in ("<<<M1416>>>" ++ check (runes_of_ascii "calculatedFrom packet
+{ @calculatedFrom( ""a\\"" ) zchar[ 4294967296 ]
+calculatedFrom@lengthOf( pack )	`100% of %d` ,char[]body@calculatedFrom( ""// no comment"" )  ,
+@tag( 007) //x
+int8
+leftPad`it's` , repeat pack
+    { repeat char[ 3] body
+,},
+}")).
+Eval vm_compute in ("<<<M1580>>>" ++ check (runes_of_ascii "packet calculatedFrom
+{ @calculatedFrom( ""a\\"" ) zchar[ 4294967296 ]
+calculatedFrom@lengthOf( pack )	`100% of %d` ,char[]body@calculatedFrom( ""// no comment"" )  ,
+@tag( 007) //x
+int8
+leftPad`it's` , repeat pack
+    { repeat char[ ]3 body
+,},
+}")).
+Eval vm_compute in ("<<<M1631>>>" ++ check (runes_of_ascii "packet calculatedFrom
+{ @calculatedFrom( ""a\\"" ) zchar[ 4294967296 ]
+calculatedFrom@lengthOf( pack )	`100% of %d` ,char[]" ++ [21517; 23383]%N ++ runes_of_ascii "@calculatedFrom( ""// no comment"" )  ,
+@tag( 007) //x
+int8
+leftPad`it's` , repeat pack
+    { repeat char[ 3] body
+,},
+}")).
+Eval vm_compute in ("<<<M2178>>>" ++ check (runes_of_ascii "packet// packet A { u8 x, }
+repeatCount	{// packet A { u8 x, }
+@leftPad ( '\x00'
+) repeat u8x MetaDataX `crlf
+line`,
+    repeat
+    char[] MetaDataX
+    ,
+u64	uint8x@calculatedFrom(""a\""b""
+// c
+// packet A { u8 x, }
+) `tab	here`
+,//
+}MetaData")).
+Eval vm_compute in ("<<<M1980>>>" ++ check (runes_of_ascii "packet	packetx { // trailing space 
+x_y_z
+{
+string
+charz ,
+string x// @lengthOf(
+`two words`
+    ,  u8x { // `tick` ""quote"" 'q'
+charz `100% of %d` // packet A { u8 x, }
+,}// " ++ [27880; 37322]%N ++ runes_of_ascii "
+,} , }
+    // a // b
+    packet metadata {  @leftPad")).
+Eval vm_compute in ("<<<M535>>>" ++ check (runes_of_ascii "options // 50% %s
+{
+    } MetaData u8x {
+    string Header , uint16
+    packetx ,roots x `it's`
+    ,
+// " ++ [27880; 37322]%N ++ runes_of_ascii "
+//x
+i64 options1 `" ++ [28040; 24687; 31867; 22411]%N ++ runes_of_ascii "` , }options { i8i8=
+    """"; a1
+=
+string Logon= 4294967296 body = 0123456789
+matchKey=true}
+")).
+Eval vm_compute in ("<<<M915>>>" ++ check (runes_of_ascii "// c
+MetaData repeatCount {
+pack
+options1
+,
+    // 50% %s
+    }
+// " ++ [27880; 37322]%N ++ runes_of_ascii "
+//x
+root packet u8x {
+string_ ,
+    repeat msg_type
+    { u128@lengthOf( o ) `` , }
+, // c
+repeat string
+    u128 `doc` ,}
+    packet	u { }
+")).
+Eval vm_compute in ("<<<M510>>>" ++ check (runes_of_ascii "  packet matchKey{rootA len`a\` ,
+@calculatedFrom( """ ++ [128512]%N ++ runes_of_ascii """
+)// `tick` ""quote"" 'q'
+@calculatedFrom( ""\" ++ [233]%N ++ runes_of_ascii """ )  @leftPad(
+    '0' )	float64
+i8i8
+    ,
+    repeat
+string_ lengthOf
+    ,} packet u128 { } // a // b")).
+Eval vm_compute in ("<<<M1076>>>" ++ check (runes_of_ascii "packet a1 {
+@leftPad
+( ) zchar[
+    7] calculatedFrom ,
+    //
+    }
+    /// triple
+    root packet x
+{}
+options { pack= ""abc""trueish =255 ; BodyLength=
+    u64 ;	Z9_
+    = i64 /// triple
+; }
+
+")).
+Eval vm_compute in ("<<<M2153>>>" ++ check (runes_of_ascii "packet// packet A { u8 x, }
+repeatCount	{// packet A { u8 x, }
+@leftPad ( '\x00'
+) repeat u8x MetaDataX `crlf
+line`,
+    repeat
+    char[] MetaDataX
+    ,
+u64	uint8x@calculatedFrom(""a\""b""")).
+Eval vm_compute in ("<<<M3870>>>" ++ check (runes_of_ascii "options {
+    Foo = '\x00'
+    rootA = uint8//
+    u128 = 7;
+    x_y_z = char[0123456789];
+}
+
+MetaData lengthOf {
+    Packet body,
+    asx lengthOf `
+    `,
+    packetx As,
+}// 50% %s")).
+Eval vm_compute in ("<<<M3359>>>" ++ check (runes_of_ascii "// top
+MetaData // c0
+_x // c1
+{ // c2
+f64 // c3
+charz // c4
+`tab	here` // c5
+, // c6
+} // c7
+options // c8
+{ // c9
+BodyLength // c10
+= // c11
+""" ++ [233]%N ++ runes_of_ascii "t" ++ [233]%N ++ runes_of_ascii """ // c12
+; // c13
+} // c14
+")).
+Eval vm_compute in ("<<<M3613>>>" ++ check (runes_of_ascii "
+packet
+	A { match
+
+k 
+as	n  {  [ 1
+
+    ,
+22	,
+
+""c c""
+
+    , 4 
+,	5
+    ,""f""  , 
+7 ,
+
+8	,  ""i""  ,
+
+    10
+	, 11 ,
+
+""l""
+	]:
+	B
+
+    2
+:C
+
+    }	,
+
+    } ")).
+Eval vm_compute in ("<<<M3755>>>" ++ check (runes_of_ascii "packet A {
     match k as n {
         [
             ""a"", 22, ""c c"", 4, ""e"",
-            66, ""g"", 8, ""i"", 10
+            66, ""g"", 8, ""i"", 10,
+            ""k""
         ] : B,
         2 : C,
     },
 }")).
-Eval vm_compute in ("<<<M1983>>>" ++ check (runes_of_ascii "
+Eval vm_compute in ("<<<M1765>>>" ++ check (runes_of_ascii "options { } packet Packet{char[] i64_ ,
+@tag(
+    255) match
+crc as i8i8{""{,}"" : trueish """" : Pad , ""a\\"" :
+@rightPad ,
+    1 :packetx
+, """ ++ [128512]%N ++ runes_of_ascii """ : trueish , } , }")).
+Eval vm_compute in ("<<<M4114>>>" ++ check (runes_of_ascii "  MetaData
+	metadata
 
-  packet 
-calculatedFrom
-	{ 
-@tag( 4294967296 )
-
-    u
-
-msg_type
-	    // c
-,  char[
-
-    3  ] crc@lengthOf(	len)
-	`u8 x,` 
-,
-	}
-")).
-Eval vm_compute in ("<<<M678>>>" ++ check (runes_of_ascii "// c
-packet i64_ {	char[] calculatedFrom , } packet
-trueish  {@calculatedFrom(
-""a\\"" ) o { i32 falsey@lengthOf( uint8x ),
-} , }")).
-Eval vm_compute in ("<<<M1621>>>" ++ check (runes_of_ascii "packet Foo {
-    repeat int {
-        string u @calculatedFrom(""packet"") ``,
-    },
-    zchar[007] A `doc`,
+{ 
 }
 
-options {
+MetaData	rootA{i8	i64_,
+	roots
+	options1  `a\` 
+,  
+  // c
+		lengthOf
+Header , 
+Z9_
+    Foo
+
+    , int16 BodyLength 
+,
+
+    }
+")).
+Eval vm_compute in ("<<<M2365>>>" ++ check (runes_of_ascii "
+packet MetaDataX
+{
+    @leftPad
+( // a // b
+'0'
+) i8 u @lengthOf(
+MetaDataX
+    ) `say ""hi""` ,	} MetaData BodyLength {
+    asx
+`" ++ [233]%N ++ runes_of_ascii "` x_y_z
+, uint64 u128 , }
+")).
+Eval vm_compute in ("<<<M1773>>>" ++ check (runes_of_ascii "options { } packet Packet{char[] i64_ ,
+@tag(
+    255) match
+crc as i8i8{""{,}"" : trueish """" : Pad , ""a\\"" :
+Foo ,
+    1 1 :packetx
+, """ ++ [128512]%N ++ runes_of_ascii """ : trueish , } , }")).
+Eval vm_compute in ("<<<M1680>>>" ++ check (runes_of_ascii "options { } packet Packet{char[] i64_ ,
+repeat
+    255) match
+crc as i8i8{""{,}"" : trueish """" : Pad , ""a\\"" :
+Foo ,
+    1 :packetx
+, """ ++ [128512]%N ++ runes_of_ascii """ : trueish , } , }")).
+Eval vm_compute in ("<<<M1704>>>" ++ check (runes_of_ascii "options { } packet Packet{char[] i64_ ,
+@tag(
+    255) match
+crc i8i8 as{""{,}"" : trueish """" : Pad , ""a\\"" :
+Foo ,
+    1 :packetx
+, """ ++ [128512]%N ++ runes_of_ascii """ : trueish , } , }")).
+Eval vm_compute in ("<<<M3805>>>" ++ check (runes_of_ascii "packet A {
+    Inner {
+        match k as n {
+            [
+                1, 22, 007, 4, 5,
+                66, 7
+            ] : B,
+        },
+    },
 }")).
-Eval vm_compute in ("<<<M1671>>>" ++ check (runes_of_ascii "
+Eval vm_compute in ("<<<M3771>>>" ++ check (runes_of_ascii "
 
   MetaData
-    // trailing space 
+	metadata{
 
-  matchKey  {
-u64 chars	// a // b
-	,
-i16
-	lengthOf
-	`// not a comment`	,//	t
-} ")).
-Eval vm_compute in ("<<<M628>>>" ++ check (runes_of_ascii "MetaData
-    // trailing space 
-    matchKey
-{ u64 chars // a // b
-,char[] lengthOf ,
-    `// not a comment` //	t
-}")).
-Eval vm_compute in ("<<<M111>>>" ++ check (runes_of_ascii "root packet Pad {@tag(  3
-)
-    @calculatedFrom(
-""a\""b""
-    )repeat zchar[
-    // " ++ [128512]%N ++ runes_of_ascii " emoji
-    00 ] repeatCount , }")).
-Eval vm_compute in ("<<<M1862>>>" ++ check (runes_of_ascii "packet	o {
-	@tag( 42 
-)
-    repeat x
+    // c
+}
+MetaData
+    rootA {
+i8
+    i64_
 
-{	char[ 0123456789
+, 
+roots	options1
+`a\`
 
-    ] i64_
-    ,}
+, lengthOf  Header 
+,
+Z9_ Foo	,  int16 
+BodyLength
 
-    , // c
-
-	} options  {
-
-} ")).
-Eval vm_compute in ("<<<M2023>>>" ++ check (runes_of_ascii "
-packet 
-o  {@tag( 
-// c
-	42
-)
-
-repeat
-x
-    {
-
-char[
-
-    0123456789  ] 
-i64_, },
-    } options {}")).
-Eval vm_compute in ("<<<M1265>>>" ++ check (runes_of_ascii "packet calculatedFrom { @tag( 4294967296 ) u // c
-msg_type , char[ 3 ] crc @lengthOf( len ) `u8 x,` , }")).
-Eval vm_compute in ("<<<M1508>>>" ++ check (runes_of_ascii "packet calculatedFrom {
-    @tag(4294967296)
-    u msg_type,
-    char[3] crc @lengthOf(len) `u8 x,`,
-}")).
-Eval vm_compute in ("<<<M903>>>" ++ check (runes_of_ascii "packet A {
-  match k as n {
-    [1, 22, 007, 4, 5, 66, 7, 8, 9, 10, 11, 12] : B,
-    2 : C
-  },
-}")).
-Eval vm_compute in ("<<<M1143>>>" ++ check (runes_of_ascii "packet Logon { @tag( 42 ) @rightPad
-// c
-( ' ' ) @leftPad ( ) repeat trueish { string T , } , }")).
-Eval vm_compute in ("<<<M2008>>>" ++ check (runes_of_ascii "packet o {
-    @tag(42)
-    repeat x {
-        char[0123456789] i64_,
-    },
+, } ")).
+Eval vm_compute in ("<<<M1847>>>" ++ check (runes_of_ascii "options { } packet a" ++ [769]%N ++ runes_of_ascii "b{char[] i64_ ,
+@tag(
+    255) match
+crc as i8i8{""{,}"" : trueish """" : Pad , ""a\\"" :
+Foo ,
+    1 :packetx
+, """ ++ [128512]%N ++ runes_of_ascii """ : trueish , } , }")).
+Eval vm_compute in ("<<<M1648>>>" ++ check (runes_of_ascii "options { }  Packet{char[] i64_ ,
+@tag(
+    255) match
+crc as i8i8{""{,}"" : trueish """" : Pad , ""a\\"" :
+Foo ,
+    1 :packetx
+, """ ++ [128512]%N ++ runes_of_ascii """ : trueish , } , }")).
+Eval vm_compute in ("<<<M3914>>>" ++ check (runes_of_ascii "MetaData metadata {
 }
 
-options {
-}// c")).
-Eval vm_compute in ("<<<M1760>>>" ++ check (runes_of_ascii "packet A {
+MetaData rootA {
+    // c
+    i8 i64_,
+    roots options1 `a\`,
+    lengthOf Header,
+    Z9_ Foo,
+    int16 BodyLength,
+}")).
+Eval vm_compute in ("<<<M2123>>>" ++ check (runes_of_ascii "packet// packet A { u8 x, }
+repeatCount	{// packet A { u8 x, }
+@leftPad ( '\x00'
+) repeat u8x MetaDataX `crlf
+line`,
+    repeat
+    char[]")).
+Eval vm_compute in ("<<<M4020>>>" ++ check (runes_of_ascii "  root
+    packet
+
+zchar
+
+    {
+@leftPad
+
+    ( '0' )
+@rightPad
+	(' '
+	)@calculatedFrom( ""\" ++ [233]%N ++ runes_of_ascii """
+)  repeat	uint32
+
+    Header	,	}
+")).
+Eval vm_compute in ("<<<M4091>>>" ++ check (runes_of_ascii "
+MetaData
+float
+	{uint8 BodyLength, }MetaData
+
+    charz { 
+      // c
+
+	float32
+
+trueish `a\` ,
+i16 metadata  `say ""hi""` , }
+")).
+Eval vm_compute in ("<<<M3637>>>" ++ check (runes_of_ascii "packet A {
     match k as n {
-        [""a"", ""bb"", ""c c"", ""d""] : B,
+        [
+            1, 22, ""c c"", 4, 5,
+            ""f""
+        ] : B,
         2 : C,
     },
 }")).
-Eval vm_compute in ("<<<M828>>>" ++ check (runes_of_ascii "packet A {
-  match k as n {
-    [""a"", ""bb"", ""c c"", ""d"", ""e"", ""f""] : B
-    2 : C
-  },
-}")).
-Eval vm_compute in ("<<<M846>>>" ++ check (runes_of_ascii "packet A {
-  match k as n {
-    [1, 22, ""c c"", 4, 5, ""f"", 7] : B,
-    2 : C
-  },
-}")).
-Eval vm_compute in ("<<<M1226>>>" ++ check (runes_of_ascii "packet o { @tag( 42 ) repeat x { char[ // c
-0123456789 ] i64_ , } , } options { }")).
-Eval vm_compute in ("<<<M1362>>>" ++ check (runes_of_ascii "options {
-    FixedStringPadFromLeft = true;
+Eval vm_compute in ("<<<M3281>>>" ++ check (runes_of_ascii "MetaData metadata { } MetaData rootA { i8 i64_ ,
+// c
+roots options1 `a\` , lengthOf Header , Z9_ Foo , int16 BodyLength , }")).
+Eval vm_compute in ("<<<M4511>>>" ++ check (runes_of_ascii "MetaData f32a {
 }
-root packet P {
-    char[4] z,
+
+MetaData calculatedFrom {
 }
+
+options {
+    trueish = char[];
+    MetaDataX = false;
+    leftPad = int64
+}")).
+Eval vm_compute in ("<<<M3045>>>" ++ check (runes_of_ascii "packet A {
+    Inner {
+        u8 x `a
+    b
+  c`,
+        Deep {
+            u8 y `a
+    b
+  c`,
+        },
+    },
+}")).
+Eval vm_compute in ("<<<M4226>>>" ++ check (runes_of_ascii "
+
+  packet A 
+{ match k as n {
+	[
+1
+
+,  22
+
+,
+
+    ""c c""
+
+,
+4 ,
+    5
+,	""f""
+]
+
+:
+B 2  :
+
+C
+
+    }
+
+    ,}
+
 ")).
-Eval vm_compute in ("<<<M2019>>>" ++ check (runes_of_ascii "MetaData M {
-    u8 x `a
-        b
-      c`,
-    T t `a
-        b
-      c`,
+Eval vm_compute in ("<<<M3320>>>" ++ check (runes_of_ascii "MetaData float // c
+{ uint8 BodyLength , } MetaData charz { float32 trueish `a\` , i16 metadata `say ""hi""` , }")).
+Eval vm_compute in ("<<<M3352>>>" ++ check (runes_of_ascii "MetaData float { uint8 BodyLength , } MetaData charz { float32 trueish `a\` , i16 metadata `say ""hi""` , // c
 }")).
-Eval vm_compute in ("<<<M889>>>" ++ check (runes_of_ascii "packet A { Inner { match k as n { [1,22,007,4,5,66,7,8,9,10] : B, }, }, }")).
-Eval vm_compute in ("<<<M1307>>>" ++ check (runes_of_ascii "// c
-MetaData _x { zchar[ 4294967296 ] lengthOf `// not a comment` , }")).
-Eval vm_compute in ("<<<M1086>>>" ++ check (runes_of_ascii "packet A { match k as n { [ // a
- 1 // b
- , // c
- 2 ] // d
- : B }, }")).
-Eval vm_compute in ("<<<M917>>>" ++ check (runes_of_ascii "packet A {
-    B b `a
-b`,
-    B `a
-b`,
-    repeat B bs `a
-b`,
+Eval vm_compute in ("<<<M3069>>>" ++ check (runes_of_ascii "packet A {
+    Inner {
+        u8 x `tab
+	x`,
+        Deep {
+            u8 y `tab
+	x`,
+        },
+    },
 }")).
-Eval vm_compute in ("<<<M775>>>" ++ check (runes_of_ascii "packet A {
+Eval vm_compute in ("<<<M3617>>>" ++ check (runes_of_ascii "
+packet Foo
+
+    {uint16
+A @calculatedFrom(
+	""a\\"") // packet A { u8 x, }
+  `u8 x,`  ,
+    }
+	//	t
+")).
+Eval vm_compute in ("<<<M3647>>>" ++ check (runes_of_ascii "
+
+  MetaData Z9_ 
+
+// 50% %s
+	  {x  u8x,	lengthOf
+chars 
+,uint32
+options1
+	,
+
+    }  options {}
+")).
+Eval vm_compute in ("<<<M2961>>>" ++ check (runes_of_ascii "packet A {
   match k as n {
-    [""a""] : B
+    [""a"", ""bb"", ""c c"", ""d"", ""e"", ""f"", ""g"", ""h""] : B,
     2 : C
   },
 }")).
-Eval vm_compute in ("<<<M377>>>" ++ check (runes_of_ascii "// " ++ [27880; 37322]%N ++ runes_of_ascii "
-MetaData u128 {  char[
-    3 ] f32a `doc` , }")).
-Eval vm_compute in ("<<<M435>>>" ++ check (runes_of_ascii "options
-{
-matchKey = 42/// triple
-x='0' ;")).
-Eval vm_compute in ("<<<M1118>>>" ++ check (runes_of_ascii "MetaData zchar { zchar[ 3 ] Pad , // c
-}")).
-Eval vm_compute in ("<<<M197>>>" ++ check (runes_of_ascii "  options { leftPad =	""it's""
+Eval vm_compute in ("<<<M2783>>>" ++ check (runes_of_ascii "'\x00' true options char[ u32 options packet uint16 int8 zchar[ repeat @tag( @calculatedFrom( 3")).
+Eval vm_compute in ("<<<M3644>>>" ++ check (runes_of_ascii "packet	o {
+	@tag(
+    4294967296 
+      // c
+  	)
+options1 @lengthOf(
+
+    u8x
+)
+	`" ++ [233]%N ++ runes_of_ascii "`,
+} ")).
+Eval vm_compute in ("<<<M2260>>>" ++ check (runes_of_ascii "MetaData _x {string x `// not a comment` , string
+i64_ // trailing space 
+`a\` , ,
     }
 ")).
-Eval vm_compute in ("<<<M1925>>>" ++ check (runes_of_ascii "// c 
-    packet  A
-
-    {	}
+Eval vm_compute in ("<<<M2981>>>" ++ check (runes_of_ascii "packet A {
+  match k as n {
+    [1, 22, ""c c"", 4, 5, ""f"", 7, 8, ""i""] : B
+    2 : C
+  },
+}")).
+Eval vm_compute in ("<<<M2257>>>" ++ check (runes_of_ascii "MetaData _x {string x `// not a comment` , string
+i64_ // trailing space 
+f64 ,
+    }
 ")).
-Eval vm_compute in ("<<<M1075>>>" ++ check (runes_of_ascii "MetaData M {
-}// c
-packet A {}")).
-Eval vm_compute in ("<<<M1184>>>" ++ check (runes_of_ascii "
-// c
-options { u8x = 3 }")).
-Eval vm_compute in ("<<<M1831>>>" ++ check (runes_of_ascii "
-// c" ++ [8287]%N ++ runes_of_ascii "
-	packet
-A
-{ }")).
-Eval vm_compute in ("<<<M1923>>>" ++ check (runes_of_ascii "packet matchKey {
+Eval vm_compute in ("<<<M3440>>>" ++ check (runes_of_ascii "options {
+    LittleEndian = true;
+}
+root packet P {
+    repeat char cs,
+    u8 x,
+}
+")).
+Eval vm_compute in ("<<<M3100>>>" ++ check (runes_of_ascii "packet A {
+    u32 crc @calculatedFrom(""%d%s""),
+    @calculatedFrom(""%d%s"") u8 y,
 }")).
-Eval vm_compute in ("<<<M1046>>>" ++ check (runes_of_ascii "// c" ++ [8203]%N ++ runes_of_ascii "
-packet A {
-}")).
-Eval vm_compute in ("<<<M1812>>>" ++ check (runes_of_ascii "packet	i8i8
+Eval vm_compute in ("<<<M4081>>>" ++ check (runes_of_ascii "
+packet Inner
+{
+u8 a ,  }
 
+    root  packet
+P
+	{ Inner
+ref_obj
+
+,
+u8
+	x
+,
+
+} ")).
+Eval vm_compute in ("<<<M2946>>>" ++ check (runes_of_ascii "packet A {
+  match k as n {
+    [1, 22, 007, 4, 5, 66, 7] : B,
+    2 : C
+  },
+}")).
+Eval vm_compute in ("<<<M590>>>" ++ check (runes_of_ascii "  MetaData u128 { BodyLength u8x ,
+    zchar[ 255 ] metadata	`say ""hi""` ,
+}
+")).
+Eval vm_compute in ("<<<M3385>>>" ++ check (runes_of_ascii "MetaData _x { f64 charz `tab	here` , } options { BodyLength
+// c
+= """ ++ [233]%N ++ runes_of_ascii "t" ++ [233]%N ++ runes_of_ascii """ ; }")).
+Eval vm_compute in ("<<<M4514>>>" ++ check (runes_of_ascii "options{  T
+	=	char	/// triple
+;Logon	//x
+	=  ' '
+;
+    i64_ = string
+
+}
+")).
+Eval vm_compute in ("<<<M4347>>>" ++ check (runes_of_ascii "packet	calculatedFrom
+    { string o
+	`` ,body x_y_z, 	 // a // b
+  }
+")).
+Eval vm_compute in ("<<<M2971>>>" ++ check (runes_of_ascii "packet A { Inner { match k as n { [1,22,007,4,5,66,7,8] : B, }, }, }")).
+Eval vm_compute in ("<<<M466>>>" ++ check (runes_of_ascii "
+MetaData
+_x
+{ rootA x_y_z `two words` , char[// a // b
+255]tag,}
+")).
+Eval vm_compute in ("<<<M3735>>>" ++ check (runes_of_ascii "packet leftPad {
+}
+
+packet charz {
+    @rightPad('0')
+    tag T,
+}")).
+Eval vm_compute in ("<<<M2826>>>" ++ check (runes_of_ascii "f32 ] u64 ""// no comment"" char[ packet ; 10 zchar[ false root :")).
+Eval vm_compute in ("<<<M1174>>>" ++ check (runes_of_ascii "MetaData pack {// `tick` ""quote"" 'q'
+uint16 Logon `" ++ [28040; 24687; 31867; 22411]%N ++ runes_of_ascii "` ,}
+")).
+Eval vm_compute in ("<<<M61>>>" ++ check (runes_of_ascii "packet
+metadata{// " ++ [27880; 37322]%N ++ runes_of_ascii "
+uint8x @lengthOf( len)  `{ , }`, }
+")).
+Eval vm_compute in ("<<<M2803>>>" ++ check (runes_of_ascii "MetaData tag ( 007 float32 i32 @calculatedFrom( '0' i64")).
+Eval vm_compute in ("<<<M4055>>>" ++ check (runes_of_ascii "packet A {
+    match k as n {
+        1 : B,
+    },
+}")).
+Eval vm_compute in ("<<<M2299>>>" ++ check (runes_of_ascii "
+MetaData Pad{ {
+u32 rootA `line1
+line2` ,
+    }
+")).
+Eval vm_compute in ("<<<M2763>>>" ++ check (runes_of_ascii "repeat as string options @tag( as false { root as")).
+Eval vm_compute in ("<<<M2603>>>" ++ check (runes_of_ascii "packet A { char[] x @calculatedFrom(""c"") `d`, }")).
+Eval vm_compute in ("<<<M3839>>>" ++ check (runes_of_ascii "MetaData zchar {
+    // c
+    zchar[3] Pad,
+}")).
+Eval vm_compute in ("<<<M3915>>>" ++ check (runes_of_ascii "MetaData packetx {
+    char[00] lengthOf,
+}")).
+Eval vm_compute in ("<<<M4344>>>" ++ check (runes_of_ascii "root packet len {
+}
+
+root packet i8i8 {
+}")).
+Eval vm_compute in ("<<<M1681>>>" ++ check (runes_of_ascii "options { } packet Packet{char[] i64_ ,")).
+Eval vm_compute in ("<<<M2602>>>" ++ check (runes_of_ascii "packet A { zchar[3] x @lengthOf(y), }")).
+Eval vm_compute in ("<<<M91>>>" ++ check (runes_of_ascii "root packet u {
+    float32 a1
+,	}")).
+Eval vm_compute in ("<<<M2789>>>" ++ check (runes_of_ascii "~_m0cQuCM@kc~nu~;9epF=}`""T4g\\V*DD")).
+Eval vm_compute in ("<<<M729>>>" ++ check (runes_of_ascii "MetaData crc {
+    u16 roots
+, }")).
+Eval vm_compute in ("<<<M3084>>>" ++ check (runes_of_ascii "packet A {
+    u8 x `%%d%!`,
+}")).
+Eval vm_compute in ("<<<M3913>>>" ++ check (runes_of_ascii "packet
+    A{
+
+} 
+
+    // c" ++ [5760]%N ++ runes_of_ascii "
+")).
+Eval vm_compute in ("<<<M3921>>>" ++ check (runes_of_ascii "
+packet A
 {
 
-}")).
-Eval vm_compute in ("<<<M1658>>>" ++ check (runes_of_ascii "
-
-  //
+}
+    // c" ++ [8202]%N ++ runes_of_ascii "
 ")).
-Eval vm_compute in ("<<<M729>>>" ++ check (runes_of_ascii "//")).
+Eval vm_compute in ("<<<M2317>>>" ++ check (runes_of_ascii "
+MetaData Pad{
+u32 rootA")).
+Eval vm_compute in ("<<<M4385>>>" ++ check (runes_of_ascii "// c" ++ [8203]%N ++ runes_of_ascii "
+		packet  A {
+}
+")).
+Eval vm_compute in ("<<<M1032>>>" ++ check (runes_of_ascii "MetaData	packetx { }
+")).
+Eval vm_compute in ("<<<M522>>>" ++ check (runes_of_ascii "root packet asx
+{}
+")).
+Eval vm_compute in ("<<<M2681>>>" ++ check (runes_of_ascii "options { a = 1, }")).
+Eval vm_compute in ("<<<M3179>>>" ++ check (runes_of_ascii "packet A {
+}
+// c" ++ [65279]%N)).
+Eval vm_compute in ("<<<M3117>>>" ++ check (runes_of_ascii "packet A {
+}// c" ++ [133]%N)).
+Eval vm_compute in ("<<<M4523>>>" ++ check (runes_of_ascii "options {
+}// " ++ [27880; 37322]%N)).
+Eval vm_compute in ("<<<M4355>>>" ++ check (runes_of_ascii "packet Foo {
+}")).
+Eval vm_compute in ("<<<M1338>>>" ++ check (runes_of_ascii " // " ++ [128512]%N ++ runes_of_ascii " emoji")).
+Eval vm_compute in ("<<<M3746>>>" ++ check (runes_of_ascii "// 50% %s")).
+Eval vm_compute in ("<<<M2523>>>" ++ check (runes_of_ascii "// a
+b")).
+Eval vm_compute in ("<<<M2446>>>" ++ check (runes_of_ascii "char[")).
+Eval vm_compute in ("<<<M3153>>>" ++ check (runes_of_ascii "// c" ++ [8287]%N)).
+Eval vm_compute in ("<<<M2849>>>" ++ check (runes_of_ascii "@Fe)")).
+Eval vm_compute in ("<<<M2570>>>" ++ check (runes_of_ascii "a" ++ [160]%N ++ runes_of_ascii "b")).
+Eval vm_compute in ("<<<M2872>>>" ++ check ([65533]%N ++ runes_of_ascii "]")).
